@@ -2915,24 +2915,11 @@ let has_prefix p s =
 (** val skip_spaces : ascii list -> ascii list **)
 
 let rec skip_spaces s = match s with
-| [] -> s
-| a :: s' ->
-  let Ascii (b, b0, b1, b2, b3, b4, b5, b6) = a in
-  if b
-  then s
-  else if b0
-       then s
-       else if b1
-            then s
-            else if b2
-                 then s
-                 else if b3
-                      then s
-                      else if b4
-                           then if b5
-                                then s
-                                else if b6 then s else skip_spaces s'
-                           else s
+| [] -> []
+| c :: s' ->
+  if eqb0 c (Ascii (false, false, false, false, false, true, false, false))
+  then skip_spaces s'
+  else s
 
 (** val take_while :
     (ascii -> bool) -> ascii list -> ascii list * ascii list **)
@@ -3014,59 +3001,18 @@ let rec code_end = function
           (match code_end s' with
            | Some p -> let (a, r) = p in Some ((c :: a), r)
            | None -> None)
-        | a :: r ->
-          let Ascii (b, b0, b1, b2, b3, b4, b5, b6) = a in
-          if b
-          then if b0
-               then (match code_end s' with
-                     | Some p -> let (a0, r0) = p in Some ((c :: a0), r0)
-                     | None -> None)
-               else if b1
-                    then if b2
-                         then if b3
-                              then if b4
-                                   then if b5
-                                        then if b6
-                                             then (match code_end s' with
-                                                   | Some p ->
-                                                     let (a0, r0) = p in
-                                                     Some ((c :: a0), r0)
-                                                   | None -> None)
-                                             else (match r with
-                                                   | [] -> Some ([], r)
-                                                   | d0 :: _ ->
-                                                     if is_ws d0
-                                                     then Some ([], r)
-                                                     else (match code_end s' with
-                                                           | Some p ->
-                                                             let (a0, r0) = p
-                                                             in
-                                                             Some ((c :: a0),
-                                                             r0)
-                                                           | None -> None))
-                                        else (match code_end s' with
-                                              | Some p ->
-                                                let (a0, r0) = p in
-                                                Some ((c :: a0), r0)
-                                              | None -> None)
-                                   else (match code_end s' with
-                                         | Some p ->
-                                           let (a0, r0) = p in
-                                           Some ((c :: a0), r0)
-                                         | None -> None)
-                              else (match code_end s' with
-                                    | Some p ->
-                                      let (a0, r0) = p in Some ((c :: a0), r0)
-                                    | None -> None)
-                         else (match code_end s' with
-                               | Some p ->
-                                 let (a0, r0) = p in Some ((c :: a0), r0)
-                               | None -> None)
-                    else (match code_end s' with
-                          | Some p -> let (a0, r0) = p in Some ((c :: a0), r0)
-                          | None -> None)
+        | e :: r ->
+          if eqb0 e (Ascii (true, false, true, true, true, true, true, false))
+          then (match r with
+                | [] -> Some ([], r)
+                | d0 :: _ ->
+                  if is_ws d0
+                  then Some ([], r)
+                  else (match code_end s' with
+                        | Some p -> let (a, r0) = p in Some ((c :: a), r0)
+                        | None -> None))
           else (match code_end s' with
-                | Some p -> let (a0, r0) = p in Some ((c :: a0), r0)
+                | Some p -> let (a, r0) = p in Some ((c :: a), r0)
                 | None -> None))
   else (match code_end s' with
         | Some p -> let (a, r) = p in Some ((c :: a), r)
@@ -3253,4588 +3199,193 @@ let union_body s =
 let errtok =
   { t_kind = LxError; t_value = []; t_rest = [] }
 
-(** val lex_root : nat -> ascii list -> ascii list -> tok0 list * tail **)
+(** val is_union : lkind -> bool **)
 
-let rec lex_root fuel carry s =
-  match fuel with
-  | O -> (({ t_kind = LxFuel; t_value = []; t_rest = s } :: []), Closed)
-  | S f ->
-    let emit = fun k v r ->
-      let (ts, tl0) = lex_root f [] r in
-      (({ t_kind = k; t_value = v; t_rest = r } :: ts), tl0)
-    in
-    if has_prefix ((Ascii (true, true, true, true, false, true, false,
-         false)) :: ((Ascii (true, true, true, true, false, true, false,
-         false)) :: [])) s
-    then lex_root f [] (after_line s)
-    else if has_prefix ((Ascii (true, true, true, true, false, true, false,
-              false)) :: ((Ascii (false, true, false, true, false, true,
-              false, false)) :: [])) s
-         then (match block_comment false (skipn (S (S O)) s) with
-               | Some r -> lex_root f [] r
-               | None -> ([], ErrorForEver))
-         else (match s with
-               | [] ->
-                 (({ t_kind = LxEOF; t_value = []; t_rest = [] } :: []),
-                   Closed)
-               | c :: r ->
-                 if eqb0 c (Ascii (true, false, true, false, false, true,
-                      false, false))
-                 then (match r with
-                       | [] ->
-                         (match directive_word r with
-                          | Some p ->
-                            let (k, r') = p in
-                            (match k with
-                             | LxError ->
-                               emit k
-                                 (app carry ((Ascii (true, false, true,
-                                   false, false, true, false, false)) :: []))
-                                 r'
-                             | LxIdentifier ->
-                               emit k
-                                 (app carry ((Ascii (true, false, true,
-                                   false, false, true, false, false)) :: []))
-                                 r'
-                             | LxNumber ->
-                               emit k
-                                 (app carry ((Ascii (true, false, true,
-                                   false, false, true, false, false)) :: []))
-                                 r'
-                             | LxSection ->
-                               emit k
-                                 (app carry ((Ascii (true, false, true,
-                                   false, false, true, false, false)) :: []))
-                                 r'
-                             | LxCodeQuote ->
-                               emit k
-                                 (app carry ((Ascii (true, false, true,
-                                   false, false, true, false, false)) :: []))
-                                 r'
-                             | LxActionQuote ->
-                               emit k
-                                 (app carry ((Ascii (true, false, true,
-                                   false, false, true, false, false)) :: []))
-                                 r'
-                             | LxEOF ->
-                               emit k
-                                 (app carry ((Ascii (true, false, true,
-                                   false, false, true, false, false)) :: []))
-                                 r'
-                             | LxType ->
-                               emit k
-                                 (app carry ((Ascii (true, false, true,
-                                   false, false, true, false, false)) :: []))
-                                 r'
-                             | LxToken ->
-                               emit k
-                                 (app carry ((Ascii (true, false, true,
-                                   false, false, true, false, false)) :: []))
-                                 r'
-                             | LxUnion ->
-                               (match union_body r' with
-                                | Some p0 ->
-                                  let (v, r'') = p0 in emit LxUnion v r''
-                                | None -> ((errtok :: []), Closed))
-                             | LxLeft ->
-                               emit k
-                                 (app carry ((Ascii (true, false, true,
-                                   false, false, true, false, false)) :: []))
-                                 r'
-                             | LxRight ->
-                               emit k
-                                 (app carry ((Ascii (true, false, true,
-                                   false, false, true, false, false)) :: []))
-                                 r'
-                             | LxNone ->
-                               emit k
-                                 (app carry ((Ascii (true, false, true,
-                                   false, false, true, false, false)) :: []))
-                                 r'
-                             | LxPrec ->
-                               emit k
-                                 (app carry ((Ascii (true, false, true,
-                                   false, false, true, false, false)) :: []))
-                                 r'
-                             | LxPrecedence ->
-                               emit k
-                                 (app carry ((Ascii (true, false, true,
-                                   false, false, true, false, false)) :: []))
-                                 r'
-                             | LxStart ->
-                               emit k
-                                 (app carry ((Ascii (true, false, true,
-                                   false, false, true, false, false)) :: []))
-                                 r'
-                             | LxActionSelf ->
-                               emit k
-                                 (app carry ((Ascii (true, false, true,
-                                   false, false, true, false, false)) :: []))
-                                 r'
-                             | LxActionN ->
-                               emit k
-                                 (app carry ((Ascii (true, false, true,
-                                   false, false, true, false, false)) :: []))
-                                 r'
-                             | LxActionAccept ->
-                               emit k
-                                 (app carry ((Ascii (true, false, true,
-                                   false, false, true, false, false)) :: []))
-                                 r'
-                             | LxActionEnd ->
-                               emit k
-                                 (app carry ((Ascii (true, false, true,
-                                   false, false, true, false, false)) :: []))
-                                 r'
-                             | LxOr ->
-                               emit k
-                                 (app carry ((Ascii (true, false, true,
-                                   false, false, true, false, false)) :: []))
-                                 r'
-                             | LxDefine ->
-                               emit k
-                                 (app carry ((Ascii (true, false, true,
-                                   false, false, true, false, false)) :: []))
-                                 r'
-                             | LxEnd ->
-                               emit k
-                                 (app carry ((Ascii (true, false, true,
-                                   false, false, true, false, false)) :: []))
-                                 r'
-                             | LxLAngle ->
-                               emit k
-                                 (app carry ((Ascii (true, false, true,
-                                   false, false, true, false, false)) :: []))
-                                 r'
-                             | LxRAngle ->
-                               emit k
-                                 (app carry ((Ascii (true, false, true,
-                                   false, false, true, false, false)) :: []))
-                                 r'
-                             | LxChar ->
-                               emit k
-                                 (app carry ((Ascii (true, false, true,
-                                   false, false, true, false, false)) :: []))
-                                 r'
-                             | LxString ->
-                               emit k
-                                 (app carry ((Ascii (true, false, true,
-                                   false, false, true, false, false)) :: []))
-                                 r'
-                             | LxFuel ->
-                               emit k
-                                 (app carry ((Ascii (true, false, true,
-                                   false, false, true, false, false)) :: []))
-                                 r')
-                          | None ->
-                            lex_root f
+let is_union = function
+| LxUnion -> true
+| _ -> false
+
+type step_result =
+| Done of tok0 list * tail
+| Cont of tok0 list * ascii list * ascii list
+
+(** val lex_step : ascii list -> ascii list -> step_result **)
+
+let lex_step carry s =
+  let emit = fun k v r -> Cont (({ t_kind = k; t_value = v; t_rest =
+    r } :: []), [], r)
+  in
+  if has_prefix ((Ascii (true, true, true, true, false, true, false,
+       false)) :: ((Ascii (true, true, true, true, false, true, false,
+       false)) :: [])) s
+  then Cont ([], [], (after_line s))
+  else if has_prefix ((Ascii (true, true, true, true, false, true, false,
+            false)) :: ((Ascii (false, true, false, true, false, true, false,
+            false)) :: [])) s
+       then (match block_comment false (skipn (S (S O)) s) with
+             | Some r -> Cont ([], [], r)
+             | None -> Done ([], ErrorForEver))
+       else (match s with
+             | [] ->
+               Done (({ t_kind = LxEOF; t_value = []; t_rest = [] } :: []),
+                 Closed)
+             | c :: r ->
+               if eqb0 c (Ascii (true, false, true, false, false, true,
+                    false, false))
+               then let other =
+                      match directive_word r with
+                      | Some p ->
+                        let (k, r') = p in
+                        if is_union k
+                        then (match union_body r' with
+                              | Some p0 ->
+                                let (v, r'') = p0 in emit LxUnion v r''
+                              | None -> Done ((errtok :: []), Closed))
+                        else emit k
+                               (app carry ((Ascii (true, false, true, false,
+                                 false, true, false, false)) :: [])) r'
+                      | None ->
+                        Cont ([],
+                          (app carry ((Ascii (true, false, true, false,
+                            false, true, false, false)) :: [])), r)
+                    in
+                    (match r with
+                     | [] -> other
+                     | d0 :: r' ->
+                       if eqb0 d0 (Ascii (true, false, true, false, false,
+                            true, false, false))
+                       then emit LxSection
                               (app carry ((Ascii (true, false, true, false,
-                                false, true, false, false)) :: [])) r)
-                       | a :: r' ->
-                         let Ascii (b, b0, b1, b2, b3, b4, b5, b6) = a in
-                         if b
-                         then if b0
-                              then if b1
-                                   then (match directive_word r with
-                                         | Some p ->
-                                           let (k, r'0) = p in
-                                           (match k with
-                                            | LxError ->
-                                              emit k
-                                                (app carry ((Ascii (true,
-                                                  false, true, false, false,
-                                                  true, false, false)) :: []))
-                                                r'0
-                                            | LxIdentifier ->
-                                              emit k
-                                                (app carry ((Ascii (true,
-                                                  false, true, false, false,
-                                                  true, false, false)) :: []))
-                                                r'0
-                                            | LxNumber ->
-                                              emit k
-                                                (app carry ((Ascii (true,
-                                                  false, true, false, false,
-                                                  true, false, false)) :: []))
-                                                r'0
-                                            | LxSection ->
-                                              emit k
-                                                (app carry ((Ascii (true,
-                                                  false, true, false, false,
-                                                  true, false, false)) :: []))
-                                                r'0
-                                            | LxCodeQuote ->
-                                              emit k
-                                                (app carry ((Ascii (true,
-                                                  false, true, false, false,
-                                                  true, false, false)) :: []))
-                                                r'0
-                                            | LxActionQuote ->
-                                              emit k
-                                                (app carry ((Ascii (true,
-                                                  false, true, false, false,
-                                                  true, false, false)) :: []))
-                                                r'0
-                                            | LxEOF ->
-                                              emit k
-                                                (app carry ((Ascii (true,
-                                                  false, true, false, false,
-                                                  true, false, false)) :: []))
-                                                r'0
-                                            | LxType ->
-                                              emit k
-                                                (app carry ((Ascii (true,
-                                                  false, true, false, false,
-                                                  true, false, false)) :: []))
-                                                r'0
-                                            | LxToken ->
-                                              emit k
-                                                (app carry ((Ascii (true,
-                                                  false, true, false, false,
-                                                  true, false, false)) :: []))
-                                                r'0
-                                            | LxUnion ->
-                                              (match union_body r'0 with
-                                               | Some p0 ->
-                                                 let (v, r'') = p0 in
-                                                 emit LxUnion v r''
-                                               | None ->
-                                                 ((errtok :: []), Closed))
-                                            | LxLeft ->
-                                              emit k
-                                                (app carry ((Ascii (true,
-                                                  false, true, false, false,
-                                                  true, false, false)) :: []))
-                                                r'0
-                                            | LxRight ->
-                                              emit k
-                                                (app carry ((Ascii (true,
-                                                  false, true, false, false,
-                                                  true, false, false)) :: []))
-                                                r'0
-                                            | LxNone ->
-                                              emit k
-                                                (app carry ((Ascii (true,
-                                                  false, true, false, false,
-                                                  true, false, false)) :: []))
-                                                r'0
-                                            | LxPrec ->
-                                              emit k
-                                                (app carry ((Ascii (true,
-                                                  false, true, false, false,
-                                                  true, false, false)) :: []))
-                                                r'0
-                                            | LxPrecedence ->
-                                              emit k
-                                                (app carry ((Ascii (true,
-                                                  false, true, false, false,
-                                                  true, false, false)) :: []))
-                                                r'0
-                                            | LxStart ->
-                                              emit k
-                                                (app carry ((Ascii (true,
-                                                  false, true, false, false,
-                                                  true, false, false)) :: []))
-                                                r'0
-                                            | LxActionSelf ->
-                                              emit k
-                                                (app carry ((Ascii (true,
-                                                  false, true, false, false,
-                                                  true, false, false)) :: []))
-                                                r'0
-                                            | LxActionN ->
-                                              emit k
-                                                (app carry ((Ascii (true,
-                                                  false, true, false, false,
-                                                  true, false, false)) :: []))
-                                                r'0
-                                            | LxActionAccept ->
-                                              emit k
-                                                (app carry ((Ascii (true,
-                                                  false, true, false, false,
-                                                  true, false, false)) :: []))
-                                                r'0
-                                            | LxActionEnd ->
-                                              emit k
-                                                (app carry ((Ascii (true,
-                                                  false, true, false, false,
-                                                  true, false, false)) :: []))
-                                                r'0
-                                            | LxOr ->
-                                              emit k
-                                                (app carry ((Ascii (true,
-                                                  false, true, false, false,
-                                                  true, false, false)) :: []))
-                                                r'0
-                                            | LxDefine ->
-                                              emit k
-                                                (app carry ((Ascii (true,
-                                                  false, true, false, false,
-                                                  true, false, false)) :: []))
-                                                r'0
-                                            | LxEnd ->
-                                              emit k
-                                                (app carry ((Ascii (true,
-                                                  false, true, false, false,
-                                                  true, false, false)) :: []))
-                                                r'0
-                                            | LxLAngle ->
-                                              emit k
-                                                (app carry ((Ascii (true,
-                                                  false, true, false, false,
-                                                  true, false, false)) :: []))
-                                                r'0
-                                            | LxRAngle ->
-                                              emit k
-                                                (app carry ((Ascii (true,
-                                                  false, true, false, false,
-                                                  true, false, false)) :: []))
-                                                r'0
-                                            | LxChar ->
-                                              emit k
-                                                (app carry ((Ascii (true,
-                                                  false, true, false, false,
-                                                  true, false, false)) :: []))
-                                                r'0
-                                            | LxString ->
-                                              emit k
-                                                (app carry ((Ascii (true,
-                                                  false, true, false, false,
-                                                  true, false, false)) :: []))
-                                                r'0
-                                            | LxFuel ->
-                                              emit k
-                                                (app carry ((Ascii (true,
-                                                  false, true, false, false,
-                                                  true, false, false)) :: []))
-                                                r'0)
-                                         | None ->
-                                           lex_root f
-                                             (app carry ((Ascii (true, false,
-                                               true, false, false, true,
-                                               false, false)) :: [])) r)
-                                   else if b2
-                                        then if b3
-                                             then if b4
-                                                  then if b5
-                                                       then if b6
-                                                            then (match 
-                                                                  directive_word
-                                                                    r with
-                                                                  | Some p ->
-                                                                    let (
-                                                                    k, r'0) =
-                                                                    p
-                                                                    in
-                                                                    (
-                                                                    match k with
-                                                                    | LxError ->
-                                                                    emit k
-                                                                    (app
-                                                                    carry
-                                                                    ((Ascii
-                                                                    (true,
-                                                                    false,
-                                                                    true,
-                                                                    false,
-                                                                    false,
-                                                                    true,
-                                                                    false,
-                                                                    false)) :: []))
-                                                                    r'0
-                                                                    | LxIdentifier ->
-                                                                    emit k
-                                                                    (app
-                                                                    carry
-                                                                    ((Ascii
-                                                                    (true,
-                                                                    false,
-                                                                    true,
-                                                                    false,
-                                                                    false,
-                                                                    true,
-                                                                    false,
-                                                                    false)) :: []))
-                                                                    r'0
-                                                                    | LxNumber ->
-                                                                    emit k
-                                                                    (app
-                                                                    carry
-                                                                    ((Ascii
-                                                                    (true,
-                                                                    false,
-                                                                    true,
-                                                                    false,
-                                                                    false,
-                                                                    true,
-                                                                    false,
-                                                                    false)) :: []))
-                                                                    r'0
-                                                                    | LxSection ->
-                                                                    emit k
-                                                                    (app
-                                                                    carry
-                                                                    ((Ascii
-                                                                    (true,
-                                                                    false,
-                                                                    true,
-                                                                    false,
-                                                                    false,
-                                                                    true,
-                                                                    false,
-                                                                    false)) :: []))
-                                                                    r'0
-                                                                    | LxCodeQuote ->
-                                                                    emit k
-                                                                    (app
-                                                                    carry
-                                                                    ((Ascii
-                                                                    (true,
-                                                                    false,
-                                                                    true,
-                                                                    false,
-                                                                    false,
-                                                                    true,
-                                                                    false,
-                                                                    false)) :: []))
-                                                                    r'0
-                                                                    | LxActionQuote ->
-                                                                    emit k
-                                                                    (app
-                                                                    carry
-                                                                    ((Ascii
-                                                                    (true,
-                                                                    false,
-                                                                    true,
-                                                                    false,
-                                                                    false,
-                                                                    true,
-                                                                    false,
-                                                                    false)) :: []))
-                                                                    r'0
-                                                                    | LxEOF ->
-                                                                    emit k
-                                                                    (app
-                                                                    carry
-                                                                    ((Ascii
-                                                                    (true,
-                                                                    false,
-                                                                    true,
-                                                                    false,
-                                                                    false,
-                                                                    true,
-                                                                    false,
-                                                                    false)) :: []))
-                                                                    r'0
-                                                                    | LxType ->
-                                                                    emit k
-                                                                    (app
-                                                                    carry
-                                                                    ((Ascii
-                                                                    (true,
-                                                                    false,
-                                                                    true,
-                                                                    false,
-                                                                    false,
-                                                                    true,
-                                                                    false,
-                                                                    false)) :: []))
-                                                                    r'0
-                                                                    | LxToken ->
-                                                                    emit k
-                                                                    (app
-                                                                    carry
-                                                                    ((Ascii
-                                                                    (true,
-                                                                    false,
-                                                                    true,
-                                                                    false,
-                                                                    false,
-                                                                    true,
-                                                                    false,
-                                                                    false)) :: []))
-                                                                    r'0
-                                                                    | LxUnion ->
-                                                                    (match 
-                                                                    union_body
-                                                                    r'0 with
-                                                                    | Some p0 ->
-                                                                    let (
-                                                                    v, r'') =
-                                                                    p0
-                                                                    in
-                                                                    emit
-                                                                    LxUnion v
-                                                                    r''
-                                                                    | None ->
-                                                                    ((errtok :: []),
-                                                                    Closed))
-                                                                    | LxLeft ->
-                                                                    emit k
-                                                                    (app
-                                                                    carry
-                                                                    ((Ascii
-                                                                    (true,
-                                                                    false,
-                                                                    true,
-                                                                    false,
-                                                                    false,
-                                                                    true,
-                                                                    false,
-                                                                    false)) :: []))
-                                                                    r'0
-                                                                    | LxRight ->
-                                                                    emit k
-                                                                    (app
-                                                                    carry
-                                                                    ((Ascii
-                                                                    (true,
-                                                                    false,
-                                                                    true,
-                                                                    false,
-                                                                    false,
-                                                                    true,
-                                                                    false,
-                                                                    false)) :: []))
-                                                                    r'0
-                                                                    | LxNone ->
-                                                                    emit k
-                                                                    (app
-                                                                    carry
-                                                                    ((Ascii
-                                                                    (true,
-                                                                    false,
-                                                                    true,
-                                                                    false,
-                                                                    false,
-                                                                    true,
-                                                                    false,
-                                                                    false)) :: []))
-                                                                    r'0
-                                                                    | LxPrec ->
-                                                                    emit k
-                                                                    (app
-                                                                    carry
-                                                                    ((Ascii
-                                                                    (true,
-                                                                    false,
-                                                                    true,
-                                                                    false,
-                                                                    false,
-                                                                    true,
-                                                                    false,
-                                                                    false)) :: []))
-                                                                    r'0
-                                                                    | LxPrecedence ->
-                                                                    emit k
-                                                                    (app
-                                                                    carry
-                                                                    ((Ascii
-                                                                    (true,
-                                                                    false,
-                                                                    true,
-                                                                    false,
-                                                                    false,
-                                                                    true,
-                                                                    false,
-                                                                    false)) :: []))
-                                                                    r'0
-                                                                    | LxStart ->
-                                                                    emit k
-                                                                    (app
-                                                                    carry
-                                                                    ((Ascii
-                                                                    (true,
-                                                                    false,
-                                                                    true,
-                                                                    false,
-                                                                    false,
-                                                                    true,
-                                                                    false,
-                                                                    false)) :: []))
-                                                                    r'0
-                                                                    | LxActionSelf ->
-                                                                    emit k
-                                                                    (app
-                                                                    carry
-                                                                    ((Ascii
-                                                                    (true,
-                                                                    false,
-                                                                    true,
-                                                                    false,
-                                                                    false,
-                                                                    true,
-                                                                    false,
-                                                                    false)) :: []))
-                                                                    r'0
-                                                                    | LxActionN ->
-                                                                    emit k
-                                                                    (app
-                                                                    carry
-                                                                    ((Ascii
-                                                                    (true,
-                                                                    false,
-                                                                    true,
-                                                                    false,
-                                                                    false,
-                                                                    true,
-                                                                    false,
-                                                                    false)) :: []))
-                                                                    r'0
-                                                                    | LxActionAccept ->
-                                                                    emit k
-                                                                    (app
-                                                                    carry
-                                                                    ((Ascii
-                                                                    (true,
-                                                                    false,
-                                                                    true,
-                                                                    false,
-                                                                    false,
-                                                                    true,
-                                                                    false,
-                                                                    false)) :: []))
-                                                                    r'0
-                                                                    | LxActionEnd ->
-                                                                    emit k
-                                                                    (app
-                                                                    carry
-                                                                    ((Ascii
-                                                                    (true,
-                                                                    false,
-                                                                    true,
-                                                                    false,
-                                                                    false,
-                                                                    true,
-                                                                    false,
-                                                                    false)) :: []))
-                                                                    r'0
-                                                                    | LxOr ->
-                                                                    emit k
-                                                                    (app
-                                                                    carry
-                                                                    ((Ascii
-                                                                    (true,
-                                                                    false,
-                                                                    true,
-                                                                    false,
-                                                                    false,
-                                                                    true,
-                                                                    false,
-                                                                    false)) :: []))
-                                                                    r'0
-                                                                    | LxDefine ->
-                                                                    emit k
-                                                                    (app
-                                                                    carry
-                                                                    ((Ascii
-                                                                    (true,
-                                                                    false,
-                                                                    true,
-                                                                    false,
-                                                                    false,
-                                                                    true,
-                                                                    false,
-                                                                    false)) :: []))
-                                                                    r'0
-                                                                    | LxEnd ->
-                                                                    emit k
-                                                                    (app
-                                                                    carry
-                                                                    ((Ascii
-                                                                    (true,
-                                                                    false,
-                                                                    true,
-                                                                    false,
-                                                                    false,
-                                                                    true,
-                                                                    false,
-                                                                    false)) :: []))
-                                                                    r'0
-                                                                    | LxLAngle ->
-                                                                    emit k
-                                                                    (app
-                                                                    carry
-                                                                    ((Ascii
-                                                                    (true,
-                                                                    false,
-                                                                    true,
-                                                                    false,
-                                                                    false,
-                                                                    true,
-                                                                    false,
-                                                                    false)) :: []))
-                                                                    r'0
-                                                                    | LxRAngle ->
-                                                                    emit k
-                                                                    (app
-                                                                    carry
-                                                                    ((Ascii
-                                                                    (true,
-                                                                    false,
-                                                                    true,
-                                                                    false,
-                                                                    false,
-                                                                    true,
-                                                                    false,
-                                                                    false)) :: []))
-                                                                    r'0
-                                                                    | LxChar ->
-                                                                    emit k
-                                                                    (app
-                                                                    carry
-                                                                    ((Ascii
-                                                                    (true,
-                                                                    false,
-                                                                    true,
-                                                                    false,
-                                                                    false,
-                                                                    true,
-                                                                    false,
-                                                                    false)) :: []))
-                                                                    r'0
-                                                                    | LxString ->
-                                                                    emit k
-                                                                    (app
-                                                                    carry
-                                                                    ((Ascii
-                                                                    (true,
-                                                                    false,
-                                                                    true,
-                                                                    false,
-                                                                    false,
-                                                                    true,
-                                                                    false,
-                                                                    false)) :: []))
-                                                                    r'0
-                                                                    | LxFuel ->
-                                                                    emit k
-                                                                    (app
-                                                                    carry
-                                                                    ((Ascii
-                                                                    (true,
-                                                                    false,
-                                                                    true,
-                                                                    false,
-                                                                    false,
-                                                                    true,
-                                                                    false,
-                                                                    false)) :: []))
-                                                                    r'0)
-                                                                  | None ->
-                                                                    lex_root
-                                                                    f
-                                                                    (app
-                                                                    carry
-                                                                    ((Ascii
-                                                                    (true,
-                                                                    false,
-                                                                    true,
-                                                                    false,
-                                                                    false,
-                                                                    true,
-                                                                    false,
-                                                                    false)) :: []))
-                                                                    r)
-                                                            else (match 
-                                                                  code_end r' with
-                                                                  | Some p ->
-                                                                    let (
-                                                                    v, r'') =
-                                                                    p
-                                                                    in
-                                                                    emit
-                                                                    LxCodeQuote
-                                                                    v r''
-                                                                  | None ->
-                                                                    ((errtok :: []),
-                                                                    Closed))
-                                                       else (match directive_word
-                                                                    r with
-                                                             | Some p ->
-                                                               let (k, r'0) =
-                                                                 p
-                                                               in
-                                                               (match k with
-                                                                | LxError ->
-                                                                  emit k
-                                                                    (app
-                                                                    carry
-                                                                    ((Ascii
-                                                                    (true,
-                                                                    false,
-                                                                    true,
-                                                                    false,
-                                                                    false,
-                                                                    true,
-                                                                    false,
-                                                                    false)) :: []))
-                                                                    r'0
-                                                                | LxIdentifier ->
-                                                                  emit k
-                                                                    (app
-                                                                    carry
-                                                                    ((Ascii
-                                                                    (true,
-                                                                    false,
-                                                                    true,
-                                                                    false,
-                                                                    false,
-                                                                    true,
-                                                                    false,
-                                                                    false)) :: []))
-                                                                    r'0
-                                                                | LxNumber ->
-                                                                  emit k
-                                                                    (app
-                                                                    carry
-                                                                    ((Ascii
-                                                                    (true,
-                                                                    false,
-                                                                    true,
-                                                                    false,
-                                                                    false,
-                                                                    true,
-                                                                    false,
-                                                                    false)) :: []))
-                                                                    r'0
-                                                                | LxSection ->
-                                                                  emit k
-                                                                    (app
-                                                                    carry
-                                                                    ((Ascii
-                                                                    (true,
-                                                                    false,
-                                                                    true,
-                                                                    false,
-                                                                    false,
-                                                                    true,
-                                                                    false,
-                                                                    false)) :: []))
-                                                                    r'0
-                                                                | LxCodeQuote ->
-                                                                  emit k
-                                                                    (app
-                                                                    carry
-                                                                    ((Ascii
-                                                                    (true,
-                                                                    false,
-                                                                    true,
-                                                                    false,
-                                                                    false,
-                                                                    true,
-                                                                    false,
-                                                                    false)) :: []))
-                                                                    r'0
-                                                                | LxActionQuote ->
-                                                                  emit k
-                                                                    (app
-                                                                    carry
-                                                                    ((Ascii
-                                                                    (true,
-                                                                    false,
-                                                                    true,
-                                                                    false,
-                                                                    false,
-                                                                    true,
-                                                                    false,
-                                                                    false)) :: []))
-                                                                    r'0
-                                                                | LxEOF ->
-                                                                  emit k
-                                                                    (app
-                                                                    carry
-                                                                    ((Ascii
-                                                                    (true,
-                                                                    false,
-                                                                    true,
-                                                                    false,
-                                                                    false,
-                                                                    true,
-                                                                    false,
-                                                                    false)) :: []))
-                                                                    r'0
-                                                                | LxType ->
-                                                                  emit k
-                                                                    (app
-                                                                    carry
-                                                                    ((Ascii
-                                                                    (true,
-                                                                    false,
-                                                                    true,
-                                                                    false,
-                                                                    false,
-                                                                    true,
-                                                                    false,
-                                                                    false)) :: []))
-                                                                    r'0
-                                                                | LxToken ->
-                                                                  emit k
-                                                                    (app
-                                                                    carry
-                                                                    ((Ascii
-                                                                    (true,
-                                                                    false,
-                                                                    true,
-                                                                    false,
-                                                                    false,
-                                                                    true,
-                                                                    false,
-                                                                    false)) :: []))
-                                                                    r'0
-                                                                | LxUnion ->
-                                                                  (match 
-                                                                   union_body
-                                                                    r'0 with
-                                                                   | Some p0 ->
-                                                                    let (
-                                                                    v, r'') =
-                                                                    p0
-                                                                    in
-                                                                    emit
-                                                                    LxUnion v
-                                                                    r''
-                                                                   | None ->
-                                                                    ((errtok :: []),
-                                                                    Closed))
-                                                                | LxLeft ->
-                                                                  emit k
-                                                                    (app
-                                                                    carry
-                                                                    ((Ascii
-                                                                    (true,
-                                                                    false,
-                                                                    true,
-                                                                    false,
-                                                                    false,
-                                                                    true,
-                                                                    false,
-                                                                    false)) :: []))
-                                                                    r'0
-                                                                | LxRight ->
-                                                                  emit k
-                                                                    (app
-                                                                    carry
-                                                                    ((Ascii
-                                                                    (true,
-                                                                    false,
-                                                                    true,
-                                                                    false,
-                                                                    false,
-                                                                    true,
-                                                                    false,
-                                                                    false)) :: []))
-                                                                    r'0
-                                                                | LxNone ->
-                                                                  emit k
-                                                                    (app
-                                                                    carry
-                                                                    ((Ascii
-                                                                    (true,
-                                                                    false,
-                                                                    true,
-                                                                    false,
-                                                                    false,
-                                                                    true,
-                                                                    false,
-                                                                    false)) :: []))
-                                                                    r'0
-                                                                | LxPrec ->
-                                                                  emit k
-                                                                    (app
-                                                                    carry
-                                                                    ((Ascii
-                                                                    (true,
-                                                                    false,
-                                                                    true,
-                                                                    false,
-                                                                    false,
-                                                                    true,
-                                                                    false,
-                                                                    false)) :: []))
-                                                                    r'0
-                                                                | LxPrecedence ->
-                                                                  emit k
-                                                                    (app
-                                                                    carry
-                                                                    ((Ascii
-                                                                    (true,
-                                                                    false,
-                                                                    true,
-                                                                    false,
-                                                                    false,
-                                                                    true,
-                                                                    false,
-                                                                    false)) :: []))
-                                                                    r'0
-                                                                | LxStart ->
-                                                                  emit k
-                                                                    (app
-                                                                    carry
-                                                                    ((Ascii
-                                                                    (true,
-                                                                    false,
-                                                                    true,
-                                                                    false,
-                                                                    false,
-                                                                    true,
-                                                                    false,
-                                                                    false)) :: []))
-                                                                    r'0
-                                                                | LxActionSelf ->
-                                                                  emit k
-                                                                    (app
-                                                                    carry
-                                                                    ((Ascii
-                                                                    (true,
-                                                                    false,
-                                                                    true,
-                                                                    false,
-                                                                    false,
-                                                                    true,
-                                                                    false,
-                                                                    false)) :: []))
-                                                                    r'0
-                                                                | LxActionN ->
-                                                                  emit k
-                                                                    (app
-                                                                    carry
-                                                                    ((Ascii
-                                                                    (true,
-                                                                    false,
-                                                                    true,
-                                                                    false,
-                                                                    false,
-                                                                    true,
-                                                                    false,
-                                                                    false)) :: []))
-                                                                    r'0
-                                                                | LxActionAccept ->
-                                                                  emit k
-                                                                    (app
-                                                                    carry
-                                                                    ((Ascii
-                                                                    (true,
-                                                                    false,
-                                                                    true,
-                                                                    false,
-                                                                    false,
-                                                                    true,
-                                                                    false,
-                                                                    false)) :: []))
-                                                                    r'0
-                                                                | LxActionEnd ->
-                                                                  emit k
-                                                                    (app
-                                                                    carry
-                                                                    ((Ascii
-                                                                    (true,
-                                                                    false,
-                                                                    true,
-                                                                    false,
-                                                                    false,
-                                                                    true,
-                                                                    false,
-                                                                    false)) :: []))
-                                                                    r'0
-                                                                | LxOr ->
-                                                                  emit k
-                                                                    (app
-                                                                    carry
-                                                                    ((Ascii
-                                                                    (true,
-                                                                    false,
-                                                                    true,
-                                                                    false,
-                                                                    false,
-                                                                    true,
-                                                                    false,
-                                                                    false)) :: []))
-                                                                    r'0
-                                                                | LxDefine ->
-                                                                  emit k
-                                                                    (app
-                                                                    carry
-                                                                    ((Ascii
-                                                                    (true,
-                                                                    false,
-                                                                    true,
-                                                                    false,
-                                                                    false,
-                                                                    true,
-                                                                    false,
-                                                                    false)) :: []))
-                                                                    r'0
-                                                                | LxEnd ->
-                                                                  emit k
-                                                                    (app
-                                                                    carry
-                                                                    ((Ascii
-                                                                    (true,
-                                                                    false,
-                                                                    true,
-                                                                    false,
-                                                                    false,
-                                                                    true,
-                                                                    false,
-                                                                    false)) :: []))
-                                                                    r'0
-                                                                | LxLAngle ->
-                                                                  emit k
-                                                                    (app
-                                                                    carry
-                                                                    ((Ascii
-                                                                    (true,
-                                                                    false,
-                                                                    true,
-                                                                    false,
-                                                                    false,
-                                                                    true,
-                                                                    false,
-                                                                    false)) :: []))
-                                                                    r'0
-                                                                | LxRAngle ->
-                                                                  emit k
-                                                                    (app
-                                                                    carry
-                                                                    ((Ascii
-                                                                    (true,
-                                                                    false,
-                                                                    true,
-                                                                    false,
-                                                                    false,
-                                                                    true,
-                                                                    false,
-                                                                    false)) :: []))
-                                                                    r'0
-                                                                | LxChar ->
-                                                                  emit k
-                                                                    (app
-                                                                    carry
-                                                                    ((Ascii
-                                                                    (true,
-                                                                    false,
-                                                                    true,
-                                                                    false,
-                                                                    false,
-                                                                    true,
-                                                                    false,
-                                                                    false)) :: []))
-                                                                    r'0
-                                                                | LxString ->
-                                                                  emit k
-                                                                    (app
-                                                                    carry
-                                                                    ((Ascii
-                                                                    (true,
-                                                                    false,
-                                                                    true,
-                                                                    false,
-                                                                    false,
-                                                                    true,
-                                                                    false,
-                                                                    false)) :: []))
-                                                                    r'0
-                                                                | LxFuel ->
-                                                                  emit k
-                                                                    (app
-                                                                    carry
-                                                                    ((Ascii
-                                                                    (true,
-                                                                    false,
-                                                                    true,
-                                                                    false,
-                                                                    false,
-                                                                    true,
-                                                                    false,
-                                                                    false)) :: []))
-                                                                    r'0)
-                                                             | None ->
-                                                               lex_root f
-                                                                 (app carry
-                                                                   ((Ascii
-                                                                   (true,
-                                                                   false,
-                                                                   true,
-                                                                   false,
-                                                                   false,
-                                                                   true,
-                                                                   false,
-                                                                   false)) :: []))
-                                                                 r)
-                                                  else (match directive_word r with
-                                                        | Some p ->
-                                                          let (k, r'0) = p in
-                                                          (match k with
-                                                           | LxError ->
-                                                             emit k
-                                                               (app carry
-                                                                 ((Ascii
-                                                                 (true,
-                                                                 false, true,
-                                                                 false,
-                                                                 false, true,
-                                                                 false,
-                                                                 false)) :: []))
-                                                               r'0
-                                                           | LxIdentifier ->
-                                                             emit k
-                                                               (app carry
-                                                                 ((Ascii
-                                                                 (true,
-                                                                 false, true,
-                                                                 false,
-                                                                 false, true,
-                                                                 false,
-                                                                 false)) :: []))
-                                                               r'0
-                                                           | LxNumber ->
-                                                             emit k
-                                                               (app carry
-                                                                 ((Ascii
-                                                                 (true,
-                                                                 false, true,
-                                                                 false,
-                                                                 false, true,
-                                                                 false,
-                                                                 false)) :: []))
-                                                               r'0
-                                                           | LxSection ->
-                                                             emit k
-                                                               (app carry
-                                                                 ((Ascii
-                                                                 (true,
-                                                                 false, true,
-                                                                 false,
-                                                                 false, true,
-                                                                 false,
-                                                                 false)) :: []))
-                                                               r'0
-                                                           | LxCodeQuote ->
-                                                             emit k
-                                                               (app carry
-                                                                 ((Ascii
-                                                                 (true,
-                                                                 false, true,
-                                                                 false,
-                                                                 false, true,
-                                                                 false,
-                                                                 false)) :: []))
-                                                               r'0
-                                                           | LxActionQuote ->
-                                                             emit k
-                                                               (app carry
-                                                                 ((Ascii
-                                                                 (true,
-                                                                 false, true,
-                                                                 false,
-                                                                 false, true,
-                                                                 false,
-                                                                 false)) :: []))
-                                                               r'0
-                                                           | LxEOF ->
-                                                             emit k
-                                                               (app carry
-                                                                 ((Ascii
-                                                                 (true,
-                                                                 false, true,
-                                                                 false,
-                                                                 false, true,
-                                                                 false,
-                                                                 false)) :: []))
-                                                               r'0
-                                                           | LxType ->
-                                                             emit k
-                                                               (app carry
-                                                                 ((Ascii
-                                                                 (true,
-                                                                 false, true,
-                                                                 false,
-                                                                 false, true,
-                                                                 false,
-                                                                 false)) :: []))
-                                                               r'0
-                                                           | LxToken ->
-                                                             emit k
-                                                               (app carry
-                                                                 ((Ascii
-                                                                 (true,
-                                                                 false, true,
-                                                                 false,
-                                                                 false, true,
-                                                                 false,
-                                                                 false)) :: []))
-                                                               r'0
-                                                           | LxUnion ->
-                                                             (match union_body
-                                                                    r'0 with
-                                                              | Some p0 ->
-                                                                let (
-                                                                  v, r'') = p0
-                                                                in
-                                                                emit LxUnion
-                                                                  v r''
-                                                              | None ->
-                                                                ((errtok :: []),
-                                                                  Closed))
-                                                           | LxLeft ->
-                                                             emit k
-                                                               (app carry
-                                                                 ((Ascii
-                                                                 (true,
-                                                                 false, true,
-                                                                 false,
-                                                                 false, true,
-                                                                 false,
-                                                                 false)) :: []))
-                                                               r'0
-                                                           | LxRight ->
-                                                             emit k
-                                                               (app carry
-                                                                 ((Ascii
-                                                                 (true,
-                                                                 false, true,
-                                                                 false,
-                                                                 false, true,
-                                                                 false,
-                                                                 false)) :: []))
-                                                               r'0
-                                                           | LxNone ->
-                                                             emit k
-                                                               (app carry
-                                                                 ((Ascii
-                                                                 (true,
-                                                                 false, true,
-                                                                 false,
-                                                                 false, true,
-                                                                 false,
-                                                                 false)) :: []))
-                                                               r'0
-                                                           | LxPrec ->
-                                                             emit k
-                                                               (app carry
-                                                                 ((Ascii
-                                                                 (true,
-                                                                 false, true,
-                                                                 false,
-                                                                 false, true,
-                                                                 false,
-                                                                 false)) :: []))
-                                                               r'0
-                                                           | LxPrecedence ->
-                                                             emit k
-                                                               (app carry
-                                                                 ((Ascii
-                                                                 (true,
-                                                                 false, true,
-                                                                 false,
-                                                                 false, true,
-                                                                 false,
-                                                                 false)) :: []))
-                                                               r'0
-                                                           | LxStart ->
-                                                             emit k
-                                                               (app carry
-                                                                 ((Ascii
-                                                                 (true,
-                                                                 false, true,
-                                                                 false,
-                                                                 false, true,
-                                                                 false,
-                                                                 false)) :: []))
-                                                               r'0
-                                                           | LxActionSelf ->
-                                                             emit k
-                                                               (app carry
-                                                                 ((Ascii
-                                                                 (true,
-                                                                 false, true,
-                                                                 false,
-                                                                 false, true,
-                                                                 false,
-                                                                 false)) :: []))
-                                                               r'0
-                                                           | LxActionN ->
-                                                             emit k
-                                                               (app carry
-                                                                 ((Ascii
-                                                                 (true,
-                                                                 false, true,
-                                                                 false,
-                                                                 false, true,
-                                                                 false,
-                                                                 false)) :: []))
-                                                               r'0
-                                                           | LxActionAccept ->
-                                                             emit k
-                                                               (app carry
-                                                                 ((Ascii
-                                                                 (true,
-                                                                 false, true,
-                                                                 false,
-                                                                 false, true,
-                                                                 false,
-                                                                 false)) :: []))
-                                                               r'0
-                                                           | LxActionEnd ->
-                                                             emit k
-                                                               (app carry
-                                                                 ((Ascii
-                                                                 (true,
-                                                                 false, true,
-                                                                 false,
-                                                                 false, true,
-                                                                 false,
-                                                                 false)) :: []))
-                                                               r'0
-                                                           | LxOr ->
-                                                             emit k
-                                                               (app carry
-                                                                 ((Ascii
-                                                                 (true,
-                                                                 false, true,
-                                                                 false,
-                                                                 false, true,
-                                                                 false,
-                                                                 false)) :: []))
-                                                               r'0
-                                                           | LxDefine ->
-                                                             emit k
-                                                               (app carry
-                                                                 ((Ascii
-                                                                 (true,
-                                                                 false, true,
-                                                                 false,
-                                                                 false, true,
-                                                                 false,
-                                                                 false)) :: []))
-                                                               r'0
-                                                           | LxEnd ->
-                                                             emit k
-                                                               (app carry
-                                                                 ((Ascii
-                                                                 (true,
-                                                                 false, true,
-                                                                 false,
-                                                                 false, true,
-                                                                 false,
-                                                                 false)) :: []))
-                                                               r'0
-                                                           | LxLAngle ->
-                                                             emit k
-                                                               (app carry
-                                                                 ((Ascii
-                                                                 (true,
-                                                                 false, true,
-                                                                 false,
-                                                                 false, true,
-                                                                 false,
-                                                                 false)) :: []))
-                                                               r'0
-                                                           | LxRAngle ->
-                                                             emit k
-                                                               (app carry
-                                                                 ((Ascii
-                                                                 (true,
-                                                                 false, true,
-                                                                 false,
-                                                                 false, true,
-                                                                 false,
-                                                                 false)) :: []))
-                                                               r'0
-                                                           | LxChar ->
-                                                             emit k
-                                                               (app carry
-                                                                 ((Ascii
-                                                                 (true,
-                                                                 false, true,
-                                                                 false,
-                                                                 false, true,
-                                                                 false,
-                                                                 false)) :: []))
-                                                               r'0
-                                                           | LxString ->
-                                                             emit k
-                                                               (app carry
-                                                                 ((Ascii
-                                                                 (true,
-                                                                 false, true,
-                                                                 false,
-                                                                 false, true,
-                                                                 false,
-                                                                 false)) :: []))
-                                                               r'0
-                                                           | LxFuel ->
-                                                             emit k
-                                                               (app carry
-                                                                 ((Ascii
-                                                                 (true,
-                                                                 false, true,
-                                                                 false,
-                                                                 false, true,
-                                                                 false,
-                                                                 false)) :: []))
-                                                               r'0)
-                                                        | None ->
-                                                          lex_root f
-                                                            (app carry
-                                                              ((Ascii (true,
-                                                              false, true,
-                                                              false, false,
-                                                              true, false,
-                                                              false)) :: []))
-                                                            r)
-                                             else (match directive_word r with
-                                                   | Some p ->
-                                                     let (k, r'0) = p in
-                                                     (match k with
-                                                      | LxError ->
-                                                        emit k
-                                                          (app carry ((Ascii
-                                                            (true, false,
-                                                            true, false,
-                                                            false, true,
-                                                            false,
-                                                            false)) :: []))
-                                                          r'0
-                                                      | LxIdentifier ->
-                                                        emit k
-                                                          (app carry ((Ascii
-                                                            (true, false,
-                                                            true, false,
-                                                            false, true,
-                                                            false,
-                                                            false)) :: []))
-                                                          r'0
-                                                      | LxNumber ->
-                                                        emit k
-                                                          (app carry ((Ascii
-                                                            (true, false,
-                                                            true, false,
-                                                            false, true,
-                                                            false,
-                                                            false)) :: []))
-                                                          r'0
-                                                      | LxSection ->
-                                                        emit k
-                                                          (app carry ((Ascii
-                                                            (true, false,
-                                                            true, false,
-                                                            false, true,
-                                                            false,
-                                                            false)) :: []))
-                                                          r'0
-                                                      | LxCodeQuote ->
-                                                        emit k
-                                                          (app carry ((Ascii
-                                                            (true, false,
-                                                            true, false,
-                                                            false, true,
-                                                            false,
-                                                            false)) :: []))
-                                                          r'0
-                                                      | LxActionQuote ->
-                                                        emit k
-                                                          (app carry ((Ascii
-                                                            (true, false,
-                                                            true, false,
-                                                            false, true,
-                                                            false,
-                                                            false)) :: []))
-                                                          r'0
-                                                      | LxEOF ->
-                                                        emit k
-                                                          (app carry ((Ascii
-                                                            (true, false,
-                                                            true, false,
-                                                            false, true,
-                                                            false,
-                                                            false)) :: []))
-                                                          r'0
-                                                      | LxType ->
-                                                        emit k
-                                                          (app carry ((Ascii
-                                                            (true, false,
-                                                            true, false,
-                                                            false, true,
-                                                            false,
-                                                            false)) :: []))
-                                                          r'0
-                                                      | LxToken ->
-                                                        emit k
-                                                          (app carry ((Ascii
-                                                            (true, false,
-                                                            true, false,
-                                                            false, true,
-                                                            false,
-                                                            false)) :: []))
-                                                          r'0
-                                                      | LxUnion ->
-                                                        (match union_body r'0 with
-                                                         | Some p0 ->
-                                                           let (v, r'') = p0
-                                                           in
-                                                           emit LxUnion v r''
-                                                         | None ->
-                                                           ((errtok :: []),
-                                                             Closed))
-                                                      | LxLeft ->
-                                                        emit k
-                                                          (app carry ((Ascii
-                                                            (true, false,
-                                                            true, false,
-                                                            false, true,
-                                                            false,
-                                                            false)) :: []))
-                                                          r'0
-                                                      | LxRight ->
-                                                        emit k
-                                                          (app carry ((Ascii
-                                                            (true, false,
-                                                            true, false,
-                                                            false, true,
-                                                            false,
-                                                            false)) :: []))
-                                                          r'0
-                                                      | LxNone ->
-                                                        emit k
-                                                          (app carry ((Ascii
-                                                            (true, false,
-                                                            true, false,
-                                                            false, true,
-                                                            false,
-                                                            false)) :: []))
-                                                          r'0
-                                                      | LxPrec ->
-                                                        emit k
-                                                          (app carry ((Ascii
-                                                            (true, false,
-                                                            true, false,
-                                                            false, true,
-                                                            false,
-                                                            false)) :: []))
-                                                          r'0
-                                                      | LxPrecedence ->
-                                                        emit k
-                                                          (app carry ((Ascii
-                                                            (true, false,
-                                                            true, false,
-                                                            false, true,
-                                                            false,
-                                                            false)) :: []))
-                                                          r'0
-                                                      | LxStart ->
-                                                        emit k
-                                                          (app carry ((Ascii
-                                                            (true, false,
-                                                            true, false,
-                                                            false, true,
-                                                            false,
-                                                            false)) :: []))
-                                                          r'0
-                                                      | LxActionSelf ->
-                                                        emit k
-                                                          (app carry ((Ascii
-                                                            (true, false,
-                                                            true, false,
-                                                            false, true,
-                                                            false,
-                                                            false)) :: []))
-                                                          r'0
-                                                      | LxActionN ->
-                                                        emit k
-                                                          (app carry ((Ascii
-                                                            (true, false,
-                                                            true, false,
-                                                            false, true,
-                                                            false,
-                                                            false)) :: []))
-                                                          r'0
-                                                      | LxActionAccept ->
-                                                        emit k
-                                                          (app carry ((Ascii
-                                                            (true, false,
-                                                            true, false,
-                                                            false, true,
-                                                            false,
-                                                            false)) :: []))
-                                                          r'0
-                                                      | LxActionEnd ->
-                                                        emit k
-                                                          (app carry ((Ascii
-                                                            (true, false,
-                                                            true, false,
-                                                            false, true,
-                                                            false,
-                                                            false)) :: []))
-                                                          r'0
-                                                      | LxOr ->
-                                                        emit k
-                                                          (app carry ((Ascii
-                                                            (true, false,
-                                                            true, false,
-                                                            false, true,
-                                                            false,
-                                                            false)) :: []))
-                                                          r'0
-                                                      | LxDefine ->
-                                                        emit k
-                                                          (app carry ((Ascii
-                                                            (true, false,
-                                                            true, false,
-                                                            false, true,
-                                                            false,
-                                                            false)) :: []))
-                                                          r'0
-                                                      | LxEnd ->
-                                                        emit k
-                                                          (app carry ((Ascii
-                                                            (true, false,
-                                                            true, false,
-                                                            false, true,
-                                                            false,
-                                                            false)) :: []))
-                                                          r'0
-                                                      | LxLAngle ->
-                                                        emit k
-                                                          (app carry ((Ascii
-                                                            (true, false,
-                                                            true, false,
-                                                            false, true,
-                                                            false,
-                                                            false)) :: []))
-                                                          r'0
-                                                      | LxRAngle ->
-                                                        emit k
-                                                          (app carry ((Ascii
-                                                            (true, false,
-                                                            true, false,
-                                                            false, true,
-                                                            false,
-                                                            false)) :: []))
-                                                          r'0
-                                                      | LxChar ->
-                                                        emit k
-                                                          (app carry ((Ascii
-                                                            (true, false,
-                                                            true, false,
-                                                            false, true,
-                                                            false,
-                                                            false)) :: []))
-                                                          r'0
-                                                      | LxString ->
-                                                        emit k
-                                                          (app carry ((Ascii
-                                                            (true, false,
-                                                            true, false,
-                                                            false, true,
-                                                            false,
-                                                            false)) :: []))
-                                                          r'0
-                                                      | LxFuel ->
-                                                        emit k
-                                                          (app carry ((Ascii
-                                                            (true, false,
-                                                            true, false,
-                                                            false, true,
-                                                            false,
-                                                            false)) :: []))
-                                                          r'0)
-                                                   | None ->
-                                                     lex_root f
-                                                       (app carry ((Ascii
-                                                         (true, false, true,
-                                                         false, false, true,
-                                                         false,
-                                                         false)) :: [])) r)
-                                        else (match directive_word r with
-                                              | Some p ->
-                                                let (k, r'0) = p in
-                                                (match k with
-                                                 | LxError ->
-                                                   emit k
-                                                     (app carry ((Ascii
-                                                       (true, false, true,
-                                                       false, false, true,
-                                                       false, false)) :: []))
-                                                     r'0
-                                                 | LxIdentifier ->
-                                                   emit k
-                                                     (app carry ((Ascii
-                                                       (true, false, true,
-                                                       false, false, true,
-                                                       false, false)) :: []))
-                                                     r'0
-                                                 | LxNumber ->
-                                                   emit k
-                                                     (app carry ((Ascii
-                                                       (true, false, true,
-                                                       false, false, true,
-                                                       false, false)) :: []))
-                                                     r'0
-                                                 | LxSection ->
-                                                   emit k
-                                                     (app carry ((Ascii
-                                                       (true, false, true,
-                                                       false, false, true,
-                                                       false, false)) :: []))
-                                                     r'0
-                                                 | LxCodeQuote ->
-                                                   emit k
-                                                     (app carry ((Ascii
-                                                       (true, false, true,
-                                                       false, false, true,
-                                                       false, false)) :: []))
-                                                     r'0
-                                                 | LxActionQuote ->
-                                                   emit k
-                                                     (app carry ((Ascii
-                                                       (true, false, true,
-                                                       false, false, true,
-                                                       false, false)) :: []))
-                                                     r'0
-                                                 | LxEOF ->
-                                                   emit k
-                                                     (app carry ((Ascii
-                                                       (true, false, true,
-                                                       false, false, true,
-                                                       false, false)) :: []))
-                                                     r'0
-                                                 | LxType ->
-                                                   emit k
-                                                     (app carry ((Ascii
-                                                       (true, false, true,
-                                                       false, false, true,
-                                                       false, false)) :: []))
-                                                     r'0
-                                                 | LxToken ->
-                                                   emit k
-                                                     (app carry ((Ascii
-                                                       (true, false, true,
-                                                       false, false, true,
-                                                       false, false)) :: []))
-                                                     r'0
-                                                 | LxUnion ->
-                                                   (match union_body r'0 with
-                                                    | Some p0 ->
-                                                      let (v, r'') = p0 in
-                                                      emit LxUnion v r''
-                                                    | None ->
-                                                      ((errtok :: []), Closed))
-                                                 | LxLeft ->
-                                                   emit k
-                                                     (app carry ((Ascii
-                                                       (true, false, true,
-                                                       false, false, true,
-                                                       false, false)) :: []))
-                                                     r'0
-                                                 | LxRight ->
-                                                   emit k
-                                                     (app carry ((Ascii
-                                                       (true, false, true,
-                                                       false, false, true,
-                                                       false, false)) :: []))
-                                                     r'0
-                                                 | LxNone ->
-                                                   emit k
-                                                     (app carry ((Ascii
-                                                       (true, false, true,
-                                                       false, false, true,
-                                                       false, false)) :: []))
-                                                     r'0
-                                                 | LxPrec ->
-                                                   emit k
-                                                     (app carry ((Ascii
-                                                       (true, false, true,
-                                                       false, false, true,
-                                                       false, false)) :: []))
-                                                     r'0
-                                                 | LxPrecedence ->
-                                                   emit k
-                                                     (app carry ((Ascii
-                                                       (true, false, true,
-                                                       false, false, true,
-                                                       false, false)) :: []))
-                                                     r'0
-                                                 | LxStart ->
-                                                   emit k
-                                                     (app carry ((Ascii
-                                                       (true, false, true,
-                                                       false, false, true,
-                                                       false, false)) :: []))
-                                                     r'0
-                                                 | LxActionSelf ->
-                                                   emit k
-                                                     (app carry ((Ascii
-                                                       (true, false, true,
-                                                       false, false, true,
-                                                       false, false)) :: []))
-                                                     r'0
-                                                 | LxActionN ->
-                                                   emit k
-                                                     (app carry ((Ascii
-                                                       (true, false, true,
-                                                       false, false, true,
-                                                       false, false)) :: []))
-                                                     r'0
-                                                 | LxActionAccept ->
-                                                   emit k
-                                                     (app carry ((Ascii
-                                                       (true, false, true,
-                                                       false, false, true,
-                                                       false, false)) :: []))
-                                                     r'0
-                                                 | LxActionEnd ->
-                                                   emit k
-                                                     (app carry ((Ascii
-                                                       (true, false, true,
-                                                       false, false, true,
-                                                       false, false)) :: []))
-                                                     r'0
-                                                 | LxOr ->
-                                                   emit k
-                                                     (app carry ((Ascii
-                                                       (true, false, true,
-                                                       false, false, true,
-                                                       false, false)) :: []))
-                                                     r'0
-                                                 | LxDefine ->
-                                                   emit k
-                                                     (app carry ((Ascii
-                                                       (true, false, true,
-                                                       false, false, true,
-                                                       false, false)) :: []))
-                                                     r'0
-                                                 | LxEnd ->
-                                                   emit k
-                                                     (app carry ((Ascii
-                                                       (true, false, true,
-                                                       false, false, true,
-                                                       false, false)) :: []))
-                                                     r'0
-                                                 | LxLAngle ->
-                                                   emit k
-                                                     (app carry ((Ascii
-                                                       (true, false, true,
-                                                       false, false, true,
-                                                       false, false)) :: []))
-                                                     r'0
-                                                 | LxRAngle ->
-                                                   emit k
-                                                     (app carry ((Ascii
-                                                       (true, false, true,
-                                                       false, false, true,
-                                                       false, false)) :: []))
-                                                     r'0
-                                                 | LxChar ->
-                                                   emit k
-                                                     (app carry ((Ascii
-                                                       (true, false, true,
-                                                       false, false, true,
-                                                       false, false)) :: []))
-                                                     r'0
-                                                 | LxString ->
-                                                   emit k
-                                                     (app carry ((Ascii
-                                                       (true, false, true,
-                                                       false, false, true,
-                                                       false, false)) :: []))
-                                                     r'0
-                                                 | LxFuel ->
-                                                   emit k
-                                                     (app carry ((Ascii
-                                                       (true, false, true,
-                                                       false, false, true,
-                                                       false, false)) :: []))
-                                                     r'0)
-                                              | None ->
-                                                lex_root f
-                                                  (app carry ((Ascii (true,
-                                                    false, true, false,
-                                                    false, true, false,
-                                                    false)) :: [])) r)
-                              else if b1
-                                   then if b2
-                                        then (match directive_word r with
-                                              | Some p ->
-                                                let (k, r'0) = p in
-                                                (match k with
-                                                 | LxError ->
-                                                   emit k
-                                                     (app carry ((Ascii
-                                                       (true, false, true,
-                                                       false, false, true,
-                                                       false, false)) :: []))
-                                                     r'0
-                                                 | LxIdentifier ->
-                                                   emit k
-                                                     (app carry ((Ascii
-                                                       (true, false, true,
-                                                       false, false, true,
-                                                       false, false)) :: []))
-                                                     r'0
-                                                 | LxNumber ->
-                                                   emit k
-                                                     (app carry ((Ascii
-                                                       (true, false, true,
-                                                       false, false, true,
-                                                       false, false)) :: []))
-                                                     r'0
-                                                 | LxSection ->
-                                                   emit k
-                                                     (app carry ((Ascii
-                                                       (true, false, true,
-                                                       false, false, true,
-                                                       false, false)) :: []))
-                                                     r'0
-                                                 | LxCodeQuote ->
-                                                   emit k
-                                                     (app carry ((Ascii
-                                                       (true, false, true,
-                                                       false, false, true,
-                                                       false, false)) :: []))
-                                                     r'0
-                                                 | LxActionQuote ->
-                                                   emit k
-                                                     (app carry ((Ascii
-                                                       (true, false, true,
-                                                       false, false, true,
-                                                       false, false)) :: []))
-                                                     r'0
-                                                 | LxEOF ->
-                                                   emit k
-                                                     (app carry ((Ascii
-                                                       (true, false, true,
-                                                       false, false, true,
-                                                       false, false)) :: []))
-                                                     r'0
-                                                 | LxType ->
-                                                   emit k
-                                                     (app carry ((Ascii
-                                                       (true, false, true,
-                                                       false, false, true,
-                                                       false, false)) :: []))
-                                                     r'0
-                                                 | LxToken ->
-                                                   emit k
-                                                     (app carry ((Ascii
-                                                       (true, false, true,
-                                                       false, false, true,
-                                                       false, false)) :: []))
-                                                     r'0
-                                                 | LxUnion ->
-                                                   (match union_body r'0 with
-                                                    | Some p0 ->
-                                                      let (v, r'') = p0 in
-                                                      emit LxUnion v r''
-                                                    | None ->
-                                                      ((errtok :: []), Closed))
-                                                 | LxLeft ->
-                                                   emit k
-                                                     (app carry ((Ascii
-                                                       (true, false, true,
-                                                       false, false, true,
-                                                       false, false)) :: []))
-                                                     r'0
-                                                 | LxRight ->
-                                                   emit k
-                                                     (app carry ((Ascii
-                                                       (true, false, true,
-                                                       false, false, true,
-                                                       false, false)) :: []))
-                                                     r'0
-                                                 | LxNone ->
-                                                   emit k
-                                                     (app carry ((Ascii
-                                                       (true, false, true,
-                                                       false, false, true,
-                                                       false, false)) :: []))
-                                                     r'0
-                                                 | LxPrec ->
-                                                   emit k
-                                                     (app carry ((Ascii
-                                                       (true, false, true,
-                                                       false, false, true,
-                                                       false, false)) :: []))
-                                                     r'0
-                                                 | LxPrecedence ->
-                                                   emit k
-                                                     (app carry ((Ascii
-                                                       (true, false, true,
-                                                       false, false, true,
-                                                       false, false)) :: []))
-                                                     r'0
-                                                 | LxStart ->
-                                                   emit k
-                                                     (app carry ((Ascii
-                                                       (true, false, true,
-                                                       false, false, true,
-                                                       false, false)) :: []))
-                                                     r'0
-                                                 | LxActionSelf ->
-                                                   emit k
-                                                     (app carry ((Ascii
-                                                       (true, false, true,
-                                                       false, false, true,
-                                                       false, false)) :: []))
-                                                     r'0
-                                                 | LxActionN ->
-                                                   emit k
-                                                     (app carry ((Ascii
-                                                       (true, false, true,
-                                                       false, false, true,
-                                                       false, false)) :: []))
-                                                     r'0
-                                                 | LxActionAccept ->
-                                                   emit k
-                                                     (app carry ((Ascii
-                                                       (true, false, true,
-                                                       false, false, true,
-                                                       false, false)) :: []))
-                                                     r'0
-                                                 | LxActionEnd ->
-                                                   emit k
-                                                     (app carry ((Ascii
-                                                       (true, false, true,
-                                                       false, false, true,
-                                                       false, false)) :: []))
-                                                     r'0
-                                                 | LxOr ->
-                                                   emit k
-                                                     (app carry ((Ascii
-                                                       (true, false, true,
-                                                       false, false, true,
-                                                       false, false)) :: []))
-                                                     r'0
-                                                 | LxDefine ->
-                                                   emit k
-                                                     (app carry ((Ascii
-                                                       (true, false, true,
-                                                       false, false, true,
-                                                       false, false)) :: []))
-                                                     r'0
-                                                 | LxEnd ->
-                                                   emit k
-                                                     (app carry ((Ascii
-                                                       (true, false, true,
-                                                       false, false, true,
-                                                       false, false)) :: []))
-                                                     r'0
-                                                 | LxLAngle ->
-                                                   emit k
-                                                     (app carry ((Ascii
-                                                       (true, false, true,
-                                                       false, false, true,
-                                                       false, false)) :: []))
-                                                     r'0
-                                                 | LxRAngle ->
-                                                   emit k
-                                                     (app carry ((Ascii
-                                                       (true, false, true,
-                                                       false, false, true,
-                                                       false, false)) :: []))
-                                                     r'0
-                                                 | LxChar ->
-                                                   emit k
-                                                     (app carry ((Ascii
-                                                       (true, false, true,
-                                                       false, false, true,
-                                                       false, false)) :: []))
-                                                     r'0
-                                                 | LxString ->
-                                                   emit k
-                                                     (app carry ((Ascii
-                                                       (true, false, true,
-                                                       false, false, true,
-                                                       false, false)) :: []))
-                                                     r'0
-                                                 | LxFuel ->
-                                                   emit k
-                                                     (app carry ((Ascii
-                                                       (true, false, true,
-                                                       false, false, true,
-                                                       false, false)) :: []))
-                                                     r'0)
-                                              | None ->
-                                                lex_root f
-                                                  (app carry ((Ascii (true,
-                                                    false, true, false,
-                                                    false, true, false,
-                                                    false)) :: [])) r)
-                                        else if b3
-                                             then (match directive_word r with
-                                                   | Some p ->
-                                                     let (k, r'0) = p in
-                                                     (match k with
-                                                      | LxError ->
-                                                        emit k
-                                                          (app carry ((Ascii
-                                                            (true, false,
-                                                            true, false,
-                                                            false, true,
-                                                            false,
-                                                            false)) :: []))
-                                                          r'0
-                                                      | LxIdentifier ->
-                                                        emit k
-                                                          (app carry ((Ascii
-                                                            (true, false,
-                                                            true, false,
-                                                            false, true,
-                                                            false,
-                                                            false)) :: []))
-                                                          r'0
-                                                      | LxNumber ->
-                                                        emit k
-                                                          (app carry ((Ascii
-                                                            (true, false,
-                                                            true, false,
-                                                            false, true,
-                                                            false,
-                                                            false)) :: []))
-                                                          r'0
-                                                      | LxSection ->
-                                                        emit k
-                                                          (app carry ((Ascii
-                                                            (true, false,
-                                                            true, false,
-                                                            false, true,
-                                                            false,
-                                                            false)) :: []))
-                                                          r'0
-                                                      | LxCodeQuote ->
-                                                        emit k
-                                                          (app carry ((Ascii
-                                                            (true, false,
-                                                            true, false,
-                                                            false, true,
-                                                            false,
-                                                            false)) :: []))
-                                                          r'0
-                                                      | LxActionQuote ->
-                                                        emit k
-                                                          (app carry ((Ascii
-                                                            (true, false,
-                                                            true, false,
-                                                            false, true,
-                                                            false,
-                                                            false)) :: []))
-                                                          r'0
-                                                      | LxEOF ->
-                                                        emit k
-                                                          (app carry ((Ascii
-                                                            (true, false,
-                                                            true, false,
-                                                            false, true,
-                                                            false,
-                                                            false)) :: []))
-                                                          r'0
-                                                      | LxType ->
-                                                        emit k
-                                                          (app carry ((Ascii
-                                                            (true, false,
-                                                            true, false,
-                                                            false, true,
-                                                            false,
-                                                            false)) :: []))
-                                                          r'0
-                                                      | LxToken ->
-                                                        emit k
-                                                          (app carry ((Ascii
-                                                            (true, false,
-                                                            true, false,
-                                                            false, true,
-                                                            false,
-                                                            false)) :: []))
-                                                          r'0
-                                                      | LxUnion ->
-                                                        (match union_body r'0 with
-                                                         | Some p0 ->
-                                                           let (v, r'') = p0
-                                                           in
-                                                           emit LxUnion v r''
-                                                         | None ->
-                                                           ((errtok :: []),
-                                                             Closed))
-                                                      | LxLeft ->
-                                                        emit k
-                                                          (app carry ((Ascii
-                                                            (true, false,
-                                                            true, false,
-                                                            false, true,
-                                                            false,
-                                                            false)) :: []))
-                                                          r'0
-                                                      | LxRight ->
-                                                        emit k
-                                                          (app carry ((Ascii
-                                                            (true, false,
-                                                            true, false,
-                                                            false, true,
-                                                            false,
-                                                            false)) :: []))
-                                                          r'0
-                                                      | LxNone ->
-                                                        emit k
-                                                          (app carry ((Ascii
-                                                            (true, false,
-                                                            true, false,
-                                                            false, true,
-                                                            false,
-                                                            false)) :: []))
-                                                          r'0
-                                                      | LxPrec ->
-                                                        emit k
-                                                          (app carry ((Ascii
-                                                            (true, false,
-                                                            true, false,
-                                                            false, true,
-                                                            false,
-                                                            false)) :: []))
-                                                          r'0
-                                                      | LxPrecedence ->
-                                                        emit k
-                                                          (app carry ((Ascii
-                                                            (true, false,
-                                                            true, false,
-                                                            false, true,
-                                                            false,
-                                                            false)) :: []))
-                                                          r'0
-                                                      | LxStart ->
-                                                        emit k
-                                                          (app carry ((Ascii
-                                                            (true, false,
-                                                            true, false,
-                                                            false, true,
-                                                            false,
-                                                            false)) :: []))
-                                                          r'0
-                                                      | LxActionSelf ->
-                                                        emit k
-                                                          (app carry ((Ascii
-                                                            (true, false,
-                                                            true, false,
-                                                            false, true,
-                                                            false,
-                                                            false)) :: []))
-                                                          r'0
-                                                      | LxActionN ->
-                                                        emit k
-                                                          (app carry ((Ascii
-                                                            (true, false,
-                                                            true, false,
-                                                            false, true,
-                                                            false,
-                                                            false)) :: []))
-                                                          r'0
-                                                      | LxActionAccept ->
-                                                        emit k
-                                                          (app carry ((Ascii
-                                                            (true, false,
-                                                            true, false,
-                                                            false, true,
-                                                            false,
-                                                            false)) :: []))
-                                                          r'0
-                                                      | LxActionEnd ->
-                                                        emit k
-                                                          (app carry ((Ascii
-                                                            (true, false,
-                                                            true, false,
-                                                            false, true,
-                                                            false,
-                                                            false)) :: []))
-                                                          r'0
-                                                      | LxOr ->
-                                                        emit k
-                                                          (app carry ((Ascii
-                                                            (true, false,
-                                                            true, false,
-                                                            false, true,
-                                                            false,
-                                                            false)) :: []))
-                                                          r'0
-                                                      | LxDefine ->
-                                                        emit k
-                                                          (app carry ((Ascii
-                                                            (true, false,
-                                                            true, false,
-                                                            false, true,
-                                                            false,
-                                                            false)) :: []))
-                                                          r'0
-                                                      | LxEnd ->
-                                                        emit k
-                                                          (app carry ((Ascii
-                                                            (true, false,
-                                                            true, false,
-                                                            false, true,
-                                                            false,
-                                                            false)) :: []))
-                                                          r'0
-                                                      | LxLAngle ->
-                                                        emit k
-                                                          (app carry ((Ascii
-                                                            (true, false,
-                                                            true, false,
-                                                            false, true,
-                                                            false,
-                                                            false)) :: []))
-                                                          r'0
-                                                      | LxRAngle ->
-                                                        emit k
-                                                          (app carry ((Ascii
-                                                            (true, false,
-                                                            true, false,
-                                                            false, true,
-                                                            false,
-                                                            false)) :: []))
-                                                          r'0
-                                                      | LxChar ->
-                                                        emit k
-                                                          (app carry ((Ascii
-                                                            (true, false,
-                                                            true, false,
-                                                            false, true,
-                                                            false,
-                                                            false)) :: []))
-                                                          r'0
-                                                      | LxString ->
-                                                        emit k
-                                                          (app carry ((Ascii
-                                                            (true, false,
-                                                            true, false,
-                                                            false, true,
-                                                            false,
-                                                            false)) :: []))
-                                                          r'0
-                                                      | LxFuel ->
-                                                        emit k
-                                                          (app carry ((Ascii
-                                                            (true, false,
-                                                            true, false,
-                                                            false, true,
-                                                            false,
-                                                            false)) :: []))
-                                                          r'0)
-                                                   | None ->
-                                                     lex_root f
-                                                       (app carry ((Ascii
-                                                         (true, false, true,
-                                                         false, false, true,
-                                                         false,
-                                                         false)) :: [])) r)
-                                             else if b4
-                                                  then if b5
-                                                       then (match directive_word
-                                                                    r with
-                                                             | Some p ->
-                                                               let (k, r'0) =
-                                                                 p
-                                                               in
-                                                               (match k with
-                                                                | LxError ->
-                                                                  emit k
-                                                                    (app
-                                                                    carry
-                                                                    ((Ascii
-                                                                    (true,
-                                                                    false,
-                                                                    true,
-                                                                    false,
-                                                                    false,
-                                                                    true,
-                                                                    false,
-                                                                    false)) :: []))
-                                                                    r'0
-                                                                | LxIdentifier ->
-                                                                  emit k
-                                                                    (app
-                                                                    carry
-                                                                    ((Ascii
-                                                                    (true,
-                                                                    false,
-                                                                    true,
-                                                                    false,
-                                                                    false,
-                                                                    true,
-                                                                    false,
-                                                                    false)) :: []))
-                                                                    r'0
-                                                                | LxNumber ->
-                                                                  emit k
-                                                                    (app
-                                                                    carry
-                                                                    ((Ascii
-                                                                    (true,
-                                                                    false,
-                                                                    true,
-                                                                    false,
-                                                                    false,
-                                                                    true,
-                                                                    false,
-                                                                    false)) :: []))
-                                                                    r'0
-                                                                | LxSection ->
-                                                                  emit k
-                                                                    (app
-                                                                    carry
-                                                                    ((Ascii
-                                                                    (true,
-                                                                    false,
-                                                                    true,
-                                                                    false,
-                                                                    false,
-                                                                    true,
-                                                                    false,
-                                                                    false)) :: []))
-                                                                    r'0
-                                                                | LxCodeQuote ->
-                                                                  emit k
-                                                                    (app
-                                                                    carry
-                                                                    ((Ascii
-                                                                    (true,
-                                                                    false,
-                                                                    true,
-                                                                    false,
-                                                                    false,
-                                                                    true,
-                                                                    false,
-                                                                    false)) :: []))
-                                                                    r'0
-                                                                | LxActionQuote ->
-                                                                  emit k
-                                                                    (app
-                                                                    carry
-                                                                    ((Ascii
-                                                                    (true,
-                                                                    false,
-                                                                    true,
-                                                                    false,
-                                                                    false,
-                                                                    true,
-                                                                    false,
-                                                                    false)) :: []))
-                                                                    r'0
-                                                                | LxEOF ->
-                                                                  emit k
-                                                                    (app
-                                                                    carry
-                                                                    ((Ascii
-                                                                    (true,
-                                                                    false,
-                                                                    true,
-                                                                    false,
-                                                                    false,
-                                                                    true,
-                                                                    false,
-                                                                    false)) :: []))
-                                                                    r'0
-                                                                | LxType ->
-                                                                  emit k
-                                                                    (app
-                                                                    carry
-                                                                    ((Ascii
-                                                                    (true,
-                                                                    false,
-                                                                    true,
-                                                                    false,
-                                                                    false,
-                                                                    true,
-                                                                    false,
-                                                                    false)) :: []))
-                                                                    r'0
-                                                                | LxToken ->
-                                                                  emit k
-                                                                    (app
-                                                                    carry
-                                                                    ((Ascii
-                                                                    (true,
-                                                                    false,
-                                                                    true,
-                                                                    false,
-                                                                    false,
-                                                                    true,
-                                                                    false,
-                                                                    false)) :: []))
-                                                                    r'0
-                                                                | LxUnion ->
-                                                                  (match 
-                                                                   union_body
-                                                                    r'0 with
-                                                                   | Some p0 ->
-                                                                    let (
-                                                                    v, r'') =
-                                                                    p0
-                                                                    in
-                                                                    emit
-                                                                    LxUnion v
-                                                                    r''
-                                                                   | None ->
-                                                                    ((errtok :: []),
-                                                                    Closed))
-                                                                | LxLeft ->
-                                                                  emit k
-                                                                    (app
-                                                                    carry
-                                                                    ((Ascii
-                                                                    (true,
-                                                                    false,
-                                                                    true,
-                                                                    false,
-                                                                    false,
-                                                                    true,
-                                                                    false,
-                                                                    false)) :: []))
-                                                                    r'0
-                                                                | LxRight ->
-                                                                  emit k
-                                                                    (app
-                                                                    carry
-                                                                    ((Ascii
-                                                                    (true,
-                                                                    false,
-                                                                    true,
-                                                                    false,
-                                                                    false,
-                                                                    true,
-                                                                    false,
-                                                                    false)) :: []))
-                                                                    r'0
-                                                                | LxNone ->
-                                                                  emit k
-                                                                    (app
-                                                                    carry
-                                                                    ((Ascii
-                                                                    (true,
-                                                                    false,
-                                                                    true,
-                                                                    false,
-                                                                    false,
-                                                                    true,
-                                                                    false,
-                                                                    false)) :: []))
-                                                                    r'0
-                                                                | LxPrec ->
-                                                                  emit k
-                                                                    (app
-                                                                    carry
-                                                                    ((Ascii
-                                                                    (true,
-                                                                    false,
-                                                                    true,
-                                                                    false,
-                                                                    false,
-                                                                    true,
-                                                                    false,
-                                                                    false)) :: []))
-                                                                    r'0
-                                                                | LxPrecedence ->
-                                                                  emit k
-                                                                    (app
-                                                                    carry
-                                                                    ((Ascii
-                                                                    (true,
-                                                                    false,
-                                                                    true,
-                                                                    false,
-                                                                    false,
-                                                                    true,
-                                                                    false,
-                                                                    false)) :: []))
-                                                                    r'0
-                                                                | LxStart ->
-                                                                  emit k
-                                                                    (app
-                                                                    carry
-                                                                    ((Ascii
-                                                                    (true,
-                                                                    false,
-                                                                    true,
-                                                                    false,
-                                                                    false,
-                                                                    true,
-                                                                    false,
-                                                                    false)) :: []))
-                                                                    r'0
-                                                                | LxActionSelf ->
-                                                                  emit k
-                                                                    (app
-                                                                    carry
-                                                                    ((Ascii
-                                                                    (true,
-                                                                    false,
-                                                                    true,
-                                                                    false,
-                                                                    false,
-                                                                    true,
-                                                                    false,
-                                                                    false)) :: []))
-                                                                    r'0
-                                                                | LxActionN ->
-                                                                  emit k
-                                                                    (app
-                                                                    carry
-                                                                    ((Ascii
-                                                                    (true,
-                                                                    false,
-                                                                    true,
-                                                                    false,
-                                                                    false,
-                                                                    true,
-                                                                    false,
-                                                                    false)) :: []))
-                                                                    r'0
-                                                                | LxActionAccept ->
-                                                                  emit k
-                                                                    (app
-                                                                    carry
-                                                                    ((Ascii
-                                                                    (true,
-                                                                    false,
-                                                                    true,
-                                                                    false,
-                                                                    false,
-                                                                    true,
-                                                                    false,
-                                                                    false)) :: []))
-                                                                    r'0
-                                                                | LxActionEnd ->
-                                                                  emit k
-                                                                    (app
-                                                                    carry
-                                                                    ((Ascii
-                                                                    (true,
-                                                                    false,
-                                                                    true,
-                                                                    false,
-                                                                    false,
-                                                                    true,
-                                                                    false,
-                                                                    false)) :: []))
-                                                                    r'0
-                                                                | LxOr ->
-                                                                  emit k
-                                                                    (app
-                                                                    carry
-                                                                    ((Ascii
-                                                                    (true,
-                                                                    false,
-                                                                    true,
-                                                                    false,
-                                                                    false,
-                                                                    true,
-                                                                    false,
-                                                                    false)) :: []))
-                                                                    r'0
-                                                                | LxDefine ->
-                                                                  emit k
-                                                                    (app
-                                                                    carry
-                                                                    ((Ascii
-                                                                    (true,
-                                                                    false,
-                                                                    true,
-                                                                    false,
-                                                                    false,
-                                                                    true,
-                                                                    false,
-                                                                    false)) :: []))
-                                                                    r'0
-                                                                | LxEnd ->
-                                                                  emit k
-                                                                    (app
-                                                                    carry
-                                                                    ((Ascii
-                                                                    (true,
-                                                                    false,
-                                                                    true,
-                                                                    false,
-                                                                    false,
-                                                                    true,
-                                                                    false,
-                                                                    false)) :: []))
-                                                                    r'0
-                                                                | LxLAngle ->
-                                                                  emit k
-                                                                    (app
-                                                                    carry
-                                                                    ((Ascii
-                                                                    (true,
-                                                                    false,
-                                                                    true,
-                                                                    false,
-                                                                    false,
-                                                                    true,
-                                                                    false,
-                                                                    false)) :: []))
-                                                                    r'0
-                                                                | LxRAngle ->
-                                                                  emit k
-                                                                    (app
-                                                                    carry
-                                                                    ((Ascii
-                                                                    (true,
-                                                                    false,
-                                                                    true,
-                                                                    false,
-                                                                    false,
-                                                                    true,
-                                                                    false,
-                                                                    false)) :: []))
-                                                                    r'0
-                                                                | LxChar ->
-                                                                  emit k
-                                                                    (app
-                                                                    carry
-                                                                    ((Ascii
-                                                                    (true,
-                                                                    false,
-                                                                    true,
-                                                                    false,
-                                                                    false,
-                                                                    true,
-                                                                    false,
-                                                                    false)) :: []))
-                                                                    r'0
-                                                                | LxString ->
-                                                                  emit k
-                                                                    (app
-                                                                    carry
-                                                                    ((Ascii
-                                                                    (true,
-                                                                    false,
-                                                                    true,
-                                                                    false,
-                                                                    false,
-                                                                    true,
-                                                                    false,
-                                                                    false)) :: []))
-                                                                    r'0
-                                                                | LxFuel ->
-                                                                  emit k
-                                                                    (app
-                                                                    carry
-                                                                    ((Ascii
-                                                                    (true,
-                                                                    false,
-                                                                    true,
-                                                                    false,
-                                                                    false,
-                                                                    true,
-                                                                    false,
-                                                                    false)) :: []))
-                                                                    r'0)
-                                                             | None ->
-                                                               lex_root f
-                                                                 (app carry
-                                                                   ((Ascii
-                                                                   (true,
-                                                                   false,
-                                                                   true,
-                                                                   false,
-                                                                   false,
-                                                                   true,
-                                                                   false,
-                                                                   false)) :: []))
-                                                                 r)
-                                                       else if b6
-                                                            then (match 
-                                                                  directive_word
-                                                                    r with
-                                                                  | Some p ->
-                                                                    let (
-                                                                    k, r'0) =
-                                                                    p
-                                                                    in
-                                                                    (
-                                                                    match k with
-                                                                    | LxError ->
-                                                                    emit k
-                                                                    (app
-                                                                    carry
-                                                                    ((Ascii
-                                                                    (true,
-                                                                    false,
-                                                                    true,
-                                                                    false,
-                                                                    false,
-                                                                    true,
-                                                                    false,
-                                                                    false)) :: []))
-                                                                    r'0
-                                                                    | LxIdentifier ->
-                                                                    emit k
-                                                                    (app
-                                                                    carry
-                                                                    ((Ascii
-                                                                    (true,
-                                                                    false,
-                                                                    true,
-                                                                    false,
-                                                                    false,
-                                                                    true,
-                                                                    false,
-                                                                    false)) :: []))
-                                                                    r'0
-                                                                    | LxNumber ->
-                                                                    emit k
-                                                                    (app
-                                                                    carry
-                                                                    ((Ascii
-                                                                    (true,
-                                                                    false,
-                                                                    true,
-                                                                    false,
-                                                                    false,
-                                                                    true,
-                                                                    false,
-                                                                    false)) :: []))
-                                                                    r'0
-                                                                    | LxSection ->
-                                                                    emit k
-                                                                    (app
-                                                                    carry
-                                                                    ((Ascii
-                                                                    (true,
-                                                                    false,
-                                                                    true,
-                                                                    false,
-                                                                    false,
-                                                                    true,
-                                                                    false,
-                                                                    false)) :: []))
-                                                                    r'0
-                                                                    | LxCodeQuote ->
-                                                                    emit k
-                                                                    (app
-                                                                    carry
-                                                                    ((Ascii
-                                                                    (true,
-                                                                    false,
-                                                                    true,
-                                                                    false,
-                                                                    false,
-                                                                    true,
-                                                                    false,
-                                                                    false)) :: []))
-                                                                    r'0
-                                                                    | LxActionQuote ->
-                                                                    emit k
-                                                                    (app
-                                                                    carry
-                                                                    ((Ascii
-                                                                    (true,
-                                                                    false,
-                                                                    true,
-                                                                    false,
-                                                                    false,
-                                                                    true,
-                                                                    false,
-                                                                    false)) :: []))
-                                                                    r'0
-                                                                    | LxEOF ->
-                                                                    emit k
-                                                                    (app
-                                                                    carry
-                                                                    ((Ascii
-                                                                    (true,
-                                                                    false,
-                                                                    true,
-                                                                    false,
-                                                                    false,
-                                                                    true,
-                                                                    false,
-                                                                    false)) :: []))
-                                                                    r'0
-                                                                    | LxType ->
-                                                                    emit k
-                                                                    (app
-                                                                    carry
-                                                                    ((Ascii
-                                                                    (true,
-                                                                    false,
-                                                                    true,
-                                                                    false,
-                                                                    false,
-                                                                    true,
-                                                                    false,
-                                                                    false)) :: []))
-                                                                    r'0
-                                                                    | LxToken ->
-                                                                    emit k
-                                                                    (app
-                                                                    carry
-                                                                    ((Ascii
-                                                                    (true,
-                                                                    false,
-                                                                    true,
-                                                                    false,
-                                                                    false,
-                                                                    true,
-                                                                    false,
-                                                                    false)) :: []))
-                                                                    r'0
-                                                                    | LxUnion ->
-                                                                    (match 
-                                                                    union_body
-                                                                    r'0 with
-                                                                    | Some p0 ->
-                                                                    let (
-                                                                    v, r'') =
-                                                                    p0
-                                                                    in
-                                                                    emit
-                                                                    LxUnion v
-                                                                    r''
-                                                                    | None ->
-                                                                    ((errtok :: []),
-                                                                    Closed))
-                                                                    | LxLeft ->
-                                                                    emit k
-                                                                    (app
-                                                                    carry
-                                                                    ((Ascii
-                                                                    (true,
-                                                                    false,
-                                                                    true,
-                                                                    false,
-                                                                    false,
-                                                                    true,
-                                                                    false,
-                                                                    false)) :: []))
-                                                                    r'0
-                                                                    | LxRight ->
-                                                                    emit k
-                                                                    (app
-                                                                    carry
-                                                                    ((Ascii
-                                                                    (true,
-                                                                    false,
-                                                                    true,
-                                                                    false,
-                                                                    false,
-                                                                    true,
-                                                                    false,
-                                                                    false)) :: []))
-                                                                    r'0
-                                                                    | LxNone ->
-                                                                    emit k
-                                                                    (app
-                                                                    carry
-                                                                    ((Ascii
-                                                                    (true,
-                                                                    false,
-                                                                    true,
-                                                                    false,
-                                                                    false,
-                                                                    true,
-                                                                    false,
-                                                                    false)) :: []))
-                                                                    r'0
-                                                                    | LxPrec ->
-                                                                    emit k
-                                                                    (app
-                                                                    carry
-                                                                    ((Ascii
-                                                                    (true,
-                                                                    false,
-                                                                    true,
-                                                                    false,
-                                                                    false,
-                                                                    true,
-                                                                    false,
-                                                                    false)) :: []))
-                                                                    r'0
-                                                                    | LxPrecedence ->
-                                                                    emit k
-                                                                    (app
-                                                                    carry
-                                                                    ((Ascii
-                                                                    (true,
-                                                                    false,
-                                                                    true,
-                                                                    false,
-                                                                    false,
-                                                                    true,
-                                                                    false,
-                                                                    false)) :: []))
-                                                                    r'0
-                                                                    | LxStart ->
-                                                                    emit k
-                                                                    (app
-                                                                    carry
-                                                                    ((Ascii
-                                                                    (true,
-                                                                    false,
-                                                                    true,
-                                                                    false,
-                                                                    false,
-                                                                    true,
-                                                                    false,
-                                                                    false)) :: []))
-                                                                    r'0
-                                                                    | LxActionSelf ->
-                                                                    emit k
-                                                                    (app
-                                                                    carry
-                                                                    ((Ascii
-                                                                    (true,
-                                                                    false,
-                                                                    true,
-                                                                    false,
-                                                                    false,
-                                                                    true,
-                                                                    false,
-                                                                    false)) :: []))
-                                                                    r'0
-                                                                    | LxActionN ->
-                                                                    emit k
-                                                                    (app
-                                                                    carry
-                                                                    ((Ascii
-                                                                    (true,
-                                                                    false,
-                                                                    true,
-                                                                    false,
-                                                                    false,
-                                                                    true,
-                                                                    false,
-                                                                    false)) :: []))
-                                                                    r'0
-                                                                    | LxActionAccept ->
-                                                                    emit k
-                                                                    (app
-                                                                    carry
-                                                                    ((Ascii
-                                                                    (true,
-                                                                    false,
-                                                                    true,
-                                                                    false,
-                                                                    false,
-                                                                    true,
-                                                                    false,
-                                                                    false)) :: []))
-                                                                    r'0
-                                                                    | LxActionEnd ->
-                                                                    emit k
-                                                                    (app
-                                                                    carry
-                                                                    ((Ascii
-                                                                    (true,
-                                                                    false,
-                                                                    true,
-                                                                    false,
-                                                                    false,
-                                                                    true,
-                                                                    false,
-                                                                    false)) :: []))
-                                                                    r'0
-                                                                    | LxOr ->
-                                                                    emit k
-                                                                    (app
-                                                                    carry
-                                                                    ((Ascii
-                                                                    (true,
-                                                                    false,
-                                                                    true,
-                                                                    false,
-                                                                    false,
-                                                                    true,
-                                                                    false,
-                                                                    false)) :: []))
-                                                                    r'0
-                                                                    | LxDefine ->
-                                                                    emit k
-                                                                    (app
-                                                                    carry
-                                                                    ((Ascii
-                                                                    (true,
-                                                                    false,
-                                                                    true,
-                                                                    false,
-                                                                    false,
-                                                                    true,
-                                                                    false,
-                                                                    false)) :: []))
-                                                                    r'0
-                                                                    | LxEnd ->
-                                                                    emit k
-                                                                    (app
-                                                                    carry
-                                                                    ((Ascii
-                                                                    (true,
-                                                                    false,
-                                                                    true,
-                                                                    false,
-                                                                    false,
-                                                                    true,
-                                                                    false,
-                                                                    false)) :: []))
-                                                                    r'0
-                                                                    | LxLAngle ->
-                                                                    emit k
-                                                                    (app
-                                                                    carry
-                                                                    ((Ascii
-                                                                    (true,
-                                                                    false,
-                                                                    true,
-                                                                    false,
-                                                                    false,
-                                                                    true,
-                                                                    false,
-                                                                    false)) :: []))
-                                                                    r'0
-                                                                    | LxRAngle ->
-                                                                    emit k
-                                                                    (app
-                                                                    carry
-                                                                    ((Ascii
-                                                                    (true,
-                                                                    false,
-                                                                    true,
-                                                                    false,
-                                                                    false,
-                                                                    true,
-                                                                    false,
-                                                                    false)) :: []))
-                                                                    r'0
-                                                                    | LxChar ->
-                                                                    emit k
-                                                                    (app
-                                                                    carry
-                                                                    ((Ascii
-                                                                    (true,
-                                                                    false,
-                                                                    true,
-                                                                    false,
-                                                                    false,
-                                                                    true,
-                                                                    false,
-                                                                    false)) :: []))
-                                                                    r'0
-                                                                    | LxString ->
-                                                                    emit k
-                                                                    (app
-                                                                    carry
-                                                                    ((Ascii
-                                                                    (true,
-                                                                    false,
-                                                                    true,
-                                                                    false,
-                                                                    false,
-                                                                    true,
-                                                                    false,
-                                                                    false)) :: []))
-                                                                    r'0
-                                                                    | LxFuel ->
-                                                                    emit k
-                                                                    (app
-                                                                    carry
-                                                                    ((Ascii
-                                                                    (true,
-                                                                    false,
-                                                                    true,
-                                                                    false,
-                                                                    false,
-                                                                    true,
-                                                                    false,
-                                                                    false)) :: []))
-                                                                    r'0)
-                                                                  | None ->
-                                                                    lex_root
-                                                                    f
-                                                                    (app
-                                                                    carry
-                                                                    ((Ascii
-                                                                    (true,
-                                                                    false,
-                                                                    true,
-                                                                    false,
-                                                                    false,
-                                                                    true,
-                                                                    false,
-                                                                    false)) :: []))
-                                                                    r)
-                                                            else emit
-                                                                   LxSection
-                                                                   (app carry
-                                                                    ((Ascii
-                                                                    (true,
-                                                                    false,
-                                                                    true,
-                                                                    false,
-                                                                    false,
-                                                                    true,
-                                                                    false,
-                                                                    false)) :: ((Ascii
-                                                                    (true,
-                                                                    false,
-                                                                    true,
-                                                                    false,
-                                                                    false,
-                                                                    true,
-                                                                    false,
-                                                                    false)) :: [])))
-                                                                   r'
-                                                  else (match directive_word r with
-                                                        | Some p ->
-                                                          let (k, r'0) = p in
-                                                          (match k with
-                                                           | LxError ->
-                                                             emit k
-                                                               (app carry
-                                                                 ((Ascii
-                                                                 (true,
-                                                                 false, true,
-                                                                 false,
-                                                                 false, true,
-                                                                 false,
-                                                                 false)) :: []))
-                                                               r'0
-                                                           | LxIdentifier ->
-                                                             emit k
-                                                               (app carry
-                                                                 ((Ascii
-                                                                 (true,
-                                                                 false, true,
-                                                                 false,
-                                                                 false, true,
-                                                                 false,
-                                                                 false)) :: []))
-                                                               r'0
-                                                           | LxNumber ->
-                                                             emit k
-                                                               (app carry
-                                                                 ((Ascii
-                                                                 (true,
-                                                                 false, true,
-                                                                 false,
-                                                                 false, true,
-                                                                 false,
-                                                                 false)) :: []))
-                                                               r'0
-                                                           | LxSection ->
-                                                             emit k
-                                                               (app carry
-                                                                 ((Ascii
-                                                                 (true,
-                                                                 false, true,
-                                                                 false,
-                                                                 false, true,
-                                                                 false,
-                                                                 false)) :: []))
-                                                               r'0
-                                                           | LxCodeQuote ->
-                                                             emit k
-                                                               (app carry
-                                                                 ((Ascii
-                                                                 (true,
-                                                                 false, true,
-                                                                 false,
-                                                                 false, true,
-                                                                 false,
-                                                                 false)) :: []))
-                                                               r'0
-                                                           | LxActionQuote ->
-                                                             emit k
-                                                               (app carry
-                                                                 ((Ascii
-                                                                 (true,
-                                                                 false, true,
-                                                                 false,
-                                                                 false, true,
-                                                                 false,
-                                                                 false)) :: []))
-                                                               r'0
-                                                           | LxEOF ->
-                                                             emit k
-                                                               (app carry
-                                                                 ((Ascii
-                                                                 (true,
-                                                                 false, true,
-                                                                 false,
-                                                                 false, true,
-                                                                 false,
-                                                                 false)) :: []))
-                                                               r'0
-                                                           | LxType ->
-                                                             emit k
-                                                               (app carry
-                                                                 ((Ascii
-                                                                 (true,
-                                                                 false, true,
-                                                                 false,
-                                                                 false, true,
-                                                                 false,
-                                                                 false)) :: []))
-                                                               r'0
-                                                           | LxToken ->
-                                                             emit k
-                                                               (app carry
-                                                                 ((Ascii
-                                                                 (true,
-                                                                 false, true,
-                                                                 false,
-                                                                 false, true,
-                                                                 false,
-                                                                 false)) :: []))
-                                                               r'0
-                                                           | LxUnion ->
-                                                             (match union_body
-                                                                    r'0 with
-                                                              | Some p0 ->
-                                                                let (
-                                                                  v, r'') = p0
-                                                                in
-                                                                emit LxUnion
-                                                                  v r''
-                                                              | None ->
-                                                                ((errtok :: []),
-                                                                  Closed))
-                                                           | LxLeft ->
-                                                             emit k
-                                                               (app carry
-                                                                 ((Ascii
-                                                                 (true,
-                                                                 false, true,
-                                                                 false,
-                                                                 false, true,
-                                                                 false,
-                                                                 false)) :: []))
-                                                               r'0
-                                                           | LxRight ->
-                                                             emit k
-                                                               (app carry
-                                                                 ((Ascii
-                                                                 (true,
-                                                                 false, true,
-                                                                 false,
-                                                                 false, true,
-                                                                 false,
-                                                                 false)) :: []))
-                                                               r'0
-                                                           | LxNone ->
-                                                             emit k
-                                                               (app carry
-                                                                 ((Ascii
-                                                                 (true,
-                                                                 false, true,
-                                                                 false,
-                                                                 false, true,
-                                                                 false,
-                                                                 false)) :: []))
-                                                               r'0
-                                                           | LxPrec ->
-                                                             emit k
-                                                               (app carry
-                                                                 ((Ascii
-                                                                 (true,
-                                                                 false, true,
-                                                                 false,
-                                                                 false, true,
-                                                                 false,
-                                                                 false)) :: []))
-                                                               r'0
-                                                           | LxPrecedence ->
-                                                             emit k
-                                                               (app carry
-                                                                 ((Ascii
-                                                                 (true,
-                                                                 false, true,
-                                                                 false,
-                                                                 false, true,
-                                                                 false,
-                                                                 false)) :: []))
-                                                               r'0
-                                                           | LxStart ->
-                                                             emit k
-                                                               (app carry
-                                                                 ((Ascii
-                                                                 (true,
-                                                                 false, true,
-                                                                 false,
-                                                                 false, true,
-                                                                 false,
-                                                                 false)) :: []))
-                                                               r'0
-                                                           | LxActionSelf ->
-                                                             emit k
-                                                               (app carry
-                                                                 ((Ascii
-                                                                 (true,
-                                                                 false, true,
-                                                                 false,
-                                                                 false, true,
-                                                                 false,
-                                                                 false)) :: []))
-                                                               r'0
-                                                           | LxActionN ->
-                                                             emit k
-                                                               (app carry
-                                                                 ((Ascii
-                                                                 (true,
-                                                                 false, true,
-                                                                 false,
-                                                                 false, true,
-                                                                 false,
-                                                                 false)) :: []))
-                                                               r'0
-                                                           | LxActionAccept ->
-                                                             emit k
-                                                               (app carry
-                                                                 ((Ascii
-                                                                 (true,
-                                                                 false, true,
-                                                                 false,
-                                                                 false, true,
-                                                                 false,
-                                                                 false)) :: []))
-                                                               r'0
-                                                           | LxActionEnd ->
-                                                             emit k
-                                                               (app carry
-                                                                 ((Ascii
-                                                                 (true,
-                                                                 false, true,
-                                                                 false,
-                                                                 false, true,
-                                                                 false,
-                                                                 false)) :: []))
-                                                               r'0
-                                                           | LxOr ->
-                                                             emit k
-                                                               (app carry
-                                                                 ((Ascii
-                                                                 (true,
-                                                                 false, true,
-                                                                 false,
-                                                                 false, true,
-                                                                 false,
-                                                                 false)) :: []))
-                                                               r'0
-                                                           | LxDefine ->
-                                                             emit k
-                                                               (app carry
-                                                                 ((Ascii
-                                                                 (true,
-                                                                 false, true,
-                                                                 false,
-                                                                 false, true,
-                                                                 false,
-                                                                 false)) :: []))
-                                                               r'0
-                                                           | LxEnd ->
-                                                             emit k
-                                                               (app carry
-                                                                 ((Ascii
-                                                                 (true,
-                                                                 false, true,
-                                                                 false,
-                                                                 false, true,
-                                                                 false,
-                                                                 false)) :: []))
-                                                               r'0
-                                                           | LxLAngle ->
-                                                             emit k
-                                                               (app carry
-                                                                 ((Ascii
-                                                                 (true,
-                                                                 false, true,
-                                                                 false,
-                                                                 false, true,
-                                                                 false,
-                                                                 false)) :: []))
-                                                               r'0
-                                                           | LxRAngle ->
-                                                             emit k
-                                                               (app carry
-                                                                 ((Ascii
-                                                                 (true,
-                                                                 false, true,
-                                                                 false,
-                                                                 false, true,
-                                                                 false,
-                                                                 false)) :: []))
-                                                               r'0
-                                                           | LxChar ->
-                                                             emit k
-                                                               (app carry
-                                                                 ((Ascii
-                                                                 (true,
-                                                                 false, true,
-                                                                 false,
-                                                                 false, true,
-                                                                 false,
-                                                                 false)) :: []))
-                                                               r'0
-                                                           | LxString ->
-                                                             emit k
-                                                               (app carry
-                                                                 ((Ascii
-                                                                 (true,
-                                                                 false, true,
-                                                                 false,
-                                                                 false, true,
-                                                                 false,
-                                                                 false)) :: []))
-                                                               r'0
-                                                           | LxFuel ->
-                                                             emit k
-                                                               (app carry
-                                                                 ((Ascii
-                                                                 (true,
-                                                                 false, true,
-                                                                 false,
-                                                                 false, true,
-                                                                 false,
-                                                                 false)) :: []))
-                                                               r'0)
-                                                        | None ->
-                                                          lex_root f
-                                                            (app carry
-                                                              ((Ascii (true,
-                                                              false, true,
-                                                              false, false,
-                                                              true, false,
-                                                              false)) :: []))
-                                                            r)
-                                   else (match directive_word r with
-                                         | Some p ->
-                                           let (k, r'0) = p in
-                                           (match k with
-                                            | LxError ->
-                                              emit k
-                                                (app carry ((Ascii (true,
-                                                  false, true, false, false,
-                                                  true, false, false)) :: []))
-                                                r'0
-                                            | LxIdentifier ->
-                                              emit k
-                                                (app carry ((Ascii (true,
-                                                  false, true, false, false,
-                                                  true, false, false)) :: []))
-                                                r'0
-                                            | LxNumber ->
-                                              emit k
-                                                (app carry ((Ascii (true,
-                                                  false, true, false, false,
-                                                  true, false, false)) :: []))
-                                                r'0
-                                            | LxSection ->
-                                              emit k
-                                                (app carry ((Ascii (true,
-                                                  false, true, false, false,
-                                                  true, false, false)) :: []))
-                                                r'0
-                                            | LxCodeQuote ->
-                                              emit k
-                                                (app carry ((Ascii (true,
-                                                  false, true, false, false,
-                                                  true, false, false)) :: []))
-                                                r'0
-                                            | LxActionQuote ->
-                                              emit k
-                                                (app carry ((Ascii (true,
-                                                  false, true, false, false,
-                                                  true, false, false)) :: []))
-                                                r'0
-                                            | LxEOF ->
-                                              emit k
-                                                (app carry ((Ascii (true,
-                                                  false, true, false, false,
-                                                  true, false, false)) :: []))
-                                                r'0
-                                            | LxType ->
-                                              emit k
-                                                (app carry ((Ascii (true,
-                                                  false, true, false, false,
-                                                  true, false, false)) :: []))
-                                                r'0
-                                            | LxToken ->
-                                              emit k
-                                                (app carry ((Ascii (true,
-                                                  false, true, false, false,
-                                                  true, false, false)) :: []))
-                                                r'0
-                                            | LxUnion ->
-                                              (match union_body r'0 with
-                                               | Some p0 ->
-                                                 let (v, r'') = p0 in
-                                                 emit LxUnion v r''
-                                               | None ->
-                                                 ((errtok :: []), Closed))
-                                            | LxLeft ->
-                                              emit k
-                                                (app carry ((Ascii (true,
-                                                  false, true, false, false,
-                                                  true, false, false)) :: []))
-                                                r'0
-                                            | LxRight ->
-                                              emit k
-                                                (app carry ((Ascii (true,
-                                                  false, true, false, false,
-                                                  true, false, false)) :: []))
-                                                r'0
-                                            | LxNone ->
-                                              emit k
-                                                (app carry ((Ascii (true,
-                                                  false, true, false, false,
-                                                  true, false, false)) :: []))
-                                                r'0
-                                            | LxPrec ->
-                                              emit k
-                                                (app carry ((Ascii (true,
-                                                  false, true, false, false,
-                                                  true, false, false)) :: []))
-                                                r'0
-                                            | LxPrecedence ->
-                                              emit k
-                                                (app carry ((Ascii (true,
-                                                  false, true, false, false,
-                                                  true, false, false)) :: []))
-                                                r'0
-                                            | LxStart ->
-                                              emit k
-                                                (app carry ((Ascii (true,
-                                                  false, true, false, false,
-                                                  true, false, false)) :: []))
-                                                r'0
-                                            | LxActionSelf ->
-                                              emit k
-                                                (app carry ((Ascii (true,
-                                                  false, true, false, false,
-                                                  true, false, false)) :: []))
-                                                r'0
-                                            | LxActionN ->
-                                              emit k
-                                                (app carry ((Ascii (true,
-                                                  false, true, false, false,
-                                                  true, false, false)) :: []))
-                                                r'0
-                                            | LxActionAccept ->
-                                              emit k
-                                                (app carry ((Ascii (true,
-                                                  false, true, false, false,
-                                                  true, false, false)) :: []))
-                                                r'0
-                                            | LxActionEnd ->
-                                              emit k
-                                                (app carry ((Ascii (true,
-                                                  false, true, false, false,
-                                                  true, false, false)) :: []))
-                                                r'0
-                                            | LxOr ->
-                                              emit k
-                                                (app carry ((Ascii (true,
-                                                  false, true, false, false,
-                                                  true, false, false)) :: []))
-                                                r'0
-                                            | LxDefine ->
-                                              emit k
-                                                (app carry ((Ascii (true,
-                                                  false, true, false, false,
-                                                  true, false, false)) :: []))
-                                                r'0
-                                            | LxEnd ->
-                                              emit k
-                                                (app carry ((Ascii (true,
-                                                  false, true, false, false,
-                                                  true, false, false)) :: []))
-                                                r'0
-                                            | LxLAngle ->
-                                              emit k
-                                                (app carry ((Ascii (true,
-                                                  false, true, false, false,
-                                                  true, false, false)) :: []))
-                                                r'0
-                                            | LxRAngle ->
-                                              emit k
-                                                (app carry ((Ascii (true,
-                                                  false, true, false, false,
-                                                  true, false, false)) :: []))
-                                                r'0
-                                            | LxChar ->
-                                              emit k
-                                                (app carry ((Ascii (true,
-                                                  false, true, false, false,
-                                                  true, false, false)) :: []))
-                                                r'0
-                                            | LxString ->
-                                              emit k
-                                                (app carry ((Ascii (true,
-                                                  false, true, false, false,
-                                                  true, false, false)) :: []))
-                                                r'0
-                                            | LxFuel ->
-                                              emit k
-                                                (app carry ((Ascii (true,
-                                                  false, true, false, false,
-                                                  true, false, false)) :: []))
-                                                r'0)
-                                         | None ->
-                                           lex_root f
-                                             (app carry ((Ascii (true, false,
-                                               true, false, false, true,
-                                               false, false)) :: [])) r)
-                         else (match directive_word r with
-                               | Some p ->
-                                 let (k, r'0) = p in
-                                 (match k with
-                                  | LxError ->
-                                    emit k
-                                      (app carry ((Ascii (true, false, true,
-                                        false, false, true, false,
-                                        false)) :: [])) r'0
-                                  | LxIdentifier ->
-                                    emit k
-                                      (app carry ((Ascii (true, false, true,
-                                        false, false, true, false,
-                                        false)) :: [])) r'0
-                                  | LxNumber ->
-                                    emit k
-                                      (app carry ((Ascii (true, false, true,
-                                        false, false, true, false,
-                                        false)) :: [])) r'0
-                                  | LxSection ->
-                                    emit k
-                                      (app carry ((Ascii (true, false, true,
-                                        false, false, true, false,
-                                        false)) :: [])) r'0
-                                  | LxCodeQuote ->
-                                    emit k
-                                      (app carry ((Ascii (true, false, true,
-                                        false, false, true, false,
-                                        false)) :: [])) r'0
-                                  | LxActionQuote ->
-                                    emit k
-                                      (app carry ((Ascii (true, false, true,
-                                        false, false, true, false,
-                                        false)) :: [])) r'0
-                                  | LxEOF ->
-                                    emit k
-                                      (app carry ((Ascii (true, false, true,
-                                        false, false, true, false,
-                                        false)) :: [])) r'0
-                                  | LxType ->
-                                    emit k
-                                      (app carry ((Ascii (true, false, true,
-                                        false, false, true, false,
-                                        false)) :: [])) r'0
-                                  | LxToken ->
-                                    emit k
-                                      (app carry ((Ascii (true, false, true,
-                                        false, false, true, false,
-                                        false)) :: [])) r'0
-                                  | LxUnion ->
-                                    (match union_body r'0 with
-                                     | Some p0 ->
-                                       let (v, r'') = p0 in emit LxUnion v r''
-                                     | None -> ((errtok :: []), Closed))
-                                  | LxLeft ->
-                                    emit k
-                                      (app carry ((Ascii (true, false, true,
-                                        false, false, true, false,
-                                        false)) :: [])) r'0
-                                  | LxRight ->
-                                    emit k
-                                      (app carry ((Ascii (true, false, true,
-                                        false, false, true, false,
-                                        false)) :: [])) r'0
-                                  | LxNone ->
-                                    emit k
-                                      (app carry ((Ascii (true, false, true,
-                                        false, false, true, false,
-                                        false)) :: [])) r'0
-                                  | LxPrec ->
-                                    emit k
-                                      (app carry ((Ascii (true, false, true,
-                                        false, false, true, false,
-                                        false)) :: [])) r'0
-                                  | LxPrecedence ->
-                                    emit k
-                                      (app carry ((Ascii (true, false, true,
-                                        false, false, true, false,
-                                        false)) :: [])) r'0
-                                  | LxStart ->
-                                    emit k
-                                      (app carry ((Ascii (true, false, true,
-                                        false, false, true, false,
-                                        false)) :: [])) r'0
-                                  | LxActionSelf ->
-                                    emit k
-                                      (app carry ((Ascii (true, false, true,
-                                        false, false, true, false,
-                                        false)) :: [])) r'0
-                                  | LxActionN ->
-                                    emit k
-                                      (app carry ((Ascii (true, false, true,
-                                        false, false, true, false,
-                                        false)) :: [])) r'0
-                                  | LxActionAccept ->
-                                    emit k
-                                      (app carry ((Ascii (true, false, true,
-                                        false, false, true, false,
-                                        false)) :: [])) r'0
-                                  | LxActionEnd ->
-                                    emit k
-                                      (app carry ((Ascii (true, false, true,
-                                        false, false, true, false,
-                                        false)) :: [])) r'0
-                                  | LxOr ->
-                                    emit k
-                                      (app carry ((Ascii (true, false, true,
-                                        false, false, true, false,
-                                        false)) :: [])) r'0
-                                  | LxDefine ->
-                                    emit k
-                                      (app carry ((Ascii (true, false, true,
-                                        false, false, true, false,
-                                        false)) :: [])) r'0
-                                  | LxEnd ->
-                                    emit k
-                                      (app carry ((Ascii (true, false, true,
-                                        false, false, true, false,
-                                        false)) :: [])) r'0
-                                  | LxLAngle ->
-                                    emit k
-                                      (app carry ((Ascii (true, false, true,
-                                        false, false, true, false,
-                                        false)) :: [])) r'0
-                                  | LxRAngle ->
-                                    emit k
-                                      (app carry ((Ascii (true, false, true,
-                                        false, false, true, false,
-                                        false)) :: [])) r'0
-                                  | LxChar ->
-                                    emit k
-                                      (app carry ((Ascii (true, false, true,
-                                        false, false, true, false,
-                                        false)) :: [])) r'0
-                                  | LxString ->
-                                    emit k
-                                      (app carry ((Ascii (true, false, true,
-                                        false, false, true, false,
-                                        false)) :: [])) r'0
-                                  | LxFuel ->
-                                    emit k
-                                      (app carry ((Ascii (true, false, true,
-                                        false, false, true, false,
-                                        false)) :: [])) r'0)
-                               | None ->
-                                 lex_root f
-                                   (app carry ((Ascii (true, false, true,
+                                false, true, false, false)) :: ((Ascii (true,
+                                false, true, false, false, true, false,
+                                false)) :: []))) r'
+                       else if eqb0 d0 (Ascii (true, true, false, true, true,
+                                 true, true, false))
+                            then (match code_end r' with
+                                  | Some p ->
+                                    let (v, r'') = p in emit LxCodeQuote v r''
+                                  | None -> Done ((errtok :: []), Closed))
+                            else other)
+               else if eqb0 c (Ascii (false, false, true, false, false, true,
+                         false, false))
+                    then (match r with
+                          | [] ->
+                            Done ((errtok :: ({ t_kind = LxEOF; t_value = [];
+                              t_rest = [] } :: [])), Closed)
+                          | d0 :: r' ->
+                            if eqb0 d0 (Ascii (false, false, true, false,
+                                 false, true, false, false))
+                            then emit LxActionSelf
+                                   (app carry ((Ascii (false, false, true,
                                      false, false, true, false,
-                                     false)) :: [])) r))
-                 else if eqb0 c (Ascii (false, false, true, false, false,
-                           true, false, false))
-                      then (match r with
-                            | [] ->
-                              ((errtok :: ({ t_kind = LxEOF; t_value = [];
-                                t_rest = [] } :: [])), Closed)
-                            | d0 :: r' ->
-                              let Ascii (b, b0, b1, b2, b3, b4, b5, b6) = d0
-                              in
-                              if b
-                              then if is_digit d0
-                                   then let (ds, r'') = take_while is_digit r'
-                                        in
-                                        emit LxActionN
-                                          (app carry ((Ascii (false, false,
-                                            true, false, false, true, false,
-                                            false)) :: (d0 :: ds))) r''
-                                   else (match accept_alpha_word w_accept r' with
-                                         | Some r'' ->
-                                           emit LxActionAccept
-                                             (app carry ((Ascii (false,
-                                               false, true, false, false,
-                                               true, false, false)) :: []))
-                                             r''
-                                         | None ->
-                                           (match accept_alpha_word w_end r' with
-                                            | Some r'' ->
-                                              emit LxActionEnd
-                                                (app carry ((Ascii (false,
-                                                  false, true, false, false,
-                                                  true, false, false)) :: []))
-                                                r''
-                                            | None ->
-                                              let (ts, tl0) =
-                                                lex_root f
-                                                  (app carry ((Ascii (false,
-                                                    false, true, false,
-                                                    false, true, false,
-                                                    false)) :: (d0 :: []))) r'
-                                              in
-                                              ((errtok :: ts), tl0)))
-                              else if b0
-                                   then if is_digit d0
-                                        then let (ds, r'') =
-                                               take_while is_digit r'
-                                             in
-                                             emit LxActionN
-                                               (app carry ((Ascii (false,
-                                                 false, true, false, false,
-                                                 true, false,
-                                                 false)) :: (d0 :: ds))) r''
-                                        else (match accept_alpha_word
-                                                      w_accept r' with
-                                              | Some r'' ->
-                                                emit LxActionAccept
-                                                  (app carry ((Ascii (false,
-                                                    false, true, false,
-                                                    false, true, false,
-                                                    false)) :: [])) r''
-                                              | None ->
-                                                (match accept_alpha_word
-                                                         w_end r' with
-                                                 | Some r'' ->
-                                                   emit LxActionEnd
-                                                     (app carry ((Ascii
-                                                       (false, false, true,
-                                                       false, false, true,
-                                                       false, false)) :: []))
-                                                     r''
-                                                 | None ->
-                                                   let (ts, tl0) =
-                                                     lex_root f
-                                                       (app carry ((Ascii
-                                                         (false, false, true,
-                                                         false, false, true,
-                                                         false,
-                                                         false)) :: (d0 :: [])))
-                                                       r'
-                                                   in
-                                                   ((errtok :: ts), tl0)))
-                                   else if b1
-                                        then if b2
-                                             then if is_digit d0
-                                                  then let (ds, r'') =
-                                                         take_while is_digit
-                                                           r'
-                                                       in
-                                                       emit LxActionN
-                                                         (app carry ((Ascii
-                                                           (false, false,
-                                                           true, false,
-                                                           false, true,
-                                                           false,
-                                                           false)) :: (d0 :: ds)))
-                                                         r''
-                                                  else (match accept_alpha_word
-                                                                w_accept r' with
-                                                        | Some r'' ->
-                                                          emit LxActionAccept
-                                                            (app carry
-                                                              ((Ascii (false,
-                                                              false, true,
-                                                              false, false,
-                                                              true, false,
-                                                              false)) :: []))
-                                                            r''
-                                                        | None ->
-                                                          (match accept_alpha_word
-                                                                   w_end r' with
-                                                           | Some r'' ->
-                                                             emit LxActionEnd
-                                                               (app carry
-                                                                 ((Ascii
-                                                                 (false,
-                                                                 false, true,
-                                                                 false,
-                                                                 false, true,
-                                                                 false,
-                                                                 false)) :: []))
-                                                               r''
-                                                           | None ->
-                                                             let (ts, tl0) =
-                                                               lex_root f
-                                                                 (app carry
-                                                                   ((Ascii
-                                                                   (false,
-                                                                   false,
-                                                                   true,
-                                                                   false,
-                                                                   false,
-                                                                   true,
-                                                                   false,
-                                                                   false)) :: (d0 :: [])))
-                                                                 r'
-                                                             in
-                                                             ((errtok :: ts),
-                                                             tl0)))
-                                             else if b3
-                                                  then if is_digit d0
-                                                       then let (ds, r'') =
-                                                              take_while
-                                                                is_digit r'
-                                                            in
-                                                            emit LxActionN
-                                                              (app carry
-                                                                ((Ascii
-                                                                (false,
-                                                                false, true,
-                                                                false, false,
-                                                                true, false,
-                                                                false)) :: (d0 :: ds)))
-                                                              r''
-                                                       else (match accept_alpha_word
-                                                                    w_accept
-                                                                    r' with
-                                                             | Some r'' ->
-                                                               emit
-                                                                 LxActionAccept
-                                                                 (app carry
-                                                                   ((Ascii
-                                                                   (false,
-                                                                   false,
-                                                                   true,
-                                                                   false,
-                                                                   false,
-                                                                   true,
-                                                                   false,
-                                                                   false)) :: []))
-                                                                 r''
-                                                             | None ->
-                                                               (match 
-                                                                accept_alpha_word
-                                                                  w_end r' with
-                                                                | Some r'' ->
-                                                                  emit
-                                                                    LxActionEnd
-                                                                    (app
-                                                                    carry
-                                                                    ((Ascii
-                                                                    (false,
-                                                                    false,
-                                                                    true,
-                                                                    false,
-                                                                    false,
-                                                                    true,
-                                                                    false,
-                                                                    false)) :: []))
-                                                                    r''
-                                                                | None ->
-                                                                  let (
-                                                                    ts, tl0) =
-                                                                    lex_root
-                                                                    f
-                                                                    (app
-                                                                    carry
-                                                                    ((Ascii
-                                                                    (false,
-                                                                    false,
-                                                                    true,
-                                                                    false,
-                                                                    false,
-                                                                    true,
-                                                                    false,
-                                                                    false)) :: (d0 :: [])))
-                                                                    r'
-                                                                  in
-                                                                  ((errtok :: ts),
-                                                                  tl0)))
-                                                  else if b4
-                                                       then if b5
-                                                            then if is_digit
-                                                                    d0
-                                                                 then 
-                                                                   let (
-                                                                    ds, r'') =
-                                                                    take_while
-                                                                    is_digit
-                                                                    r'
-                                                                   in
-                                                                   emit
-                                                                    LxActionN
-                                                                    (app
-                                                                    carry
-                                                                    ((Ascii
-                                                                    (false,
-                                                                    false,
-                                                                    true,
-                                                                    false,
-                                                                    false,
-                                                                    true,
-                                                                    false,
-                                                                    false)) :: (d0 :: ds)))
-                                                                    r''
-                                                                 else 
-                                                                   (match 
-                                                                    accept_alpha_word
-                                                                    w_accept
-                                                                    r' with
-                                                                    | Some r'' ->
-                                                                    emit
-                                                                    LxActionAccept
-                                                                    (app
-                                                                    carry
-                                                                    ((Ascii
-                                                                    (false,
-                                                                    false,
-                                                                    true,
-                                                                    false,
-                                                                    false,
-                                                                    true,
-                                                                    false,
-                                                                    false)) :: []))
-                                                                    r''
-                                                                    | None ->
-                                                                    (match 
-                                                                    accept_alpha_word
-                                                                    w_end r' with
-                                                                    | Some r'' ->
-                                                                    emit
-                                                                    LxActionEnd
-                                                                    (app
-                                                                    carry
-                                                                    ((Ascii
-                                                                    (false,
-                                                                    false,
-                                                                    true,
-                                                                    false,
-                                                                    false,
-                                                                    true,
-                                                                    false,
-                                                                    false)) :: []))
-                                                                    r''
-                                                                    | None ->
-                                                                    let (
-                                                                    ts, tl0) =
-                                                                    lex_root
-                                                                    f
-                                                                    (app
-                                                                    carry
-                                                                    ((Ascii
-                                                                    (false,
-                                                                    false,
-                                                                    true,
-                                                                    false,
-                                                                    false,
-                                                                    true,
-                                                                    false,
-                                                                    false)) :: (d0 :: [])))
-                                                                    r'
-                                                                    in
-                                                                    ((errtok :: ts),
-                                                                    tl0)))
-                                                            else if b6
-                                                                 then 
-                                                                   if 
-                                                                    is_digit
-                                                                    d0
-                                                                   then 
-                                                                    let (
-                                                                    ds, r'') =
-                                                                    take_while
-                                                                    is_digit
-                                                                    r'
-                                                                    in
-                                                                    emit
-                                                                    LxActionN
-                                                                    (app
-                                                                    carry
-                                                                    ((Ascii
-                                                                    (false,
-                                                                    false,
-                                                                    true,
-                                                                    false,
-                                                                    false,
-                                                                    true,
-                                                                    false,
-                                                                    false)) :: (d0 :: ds)))
-                                                                    r''
-                                                                   else 
-                                                                    (match 
-                                                                    accept_alpha_word
-                                                                    w_accept
-                                                                    r' with
-                                                                    | Some r'' ->
-                                                                    emit
-                                                                    LxActionAccept
-                                                                    (app
-                                                                    carry
-                                                                    ((Ascii
-                                                                    (false,
-                                                                    false,
-                                                                    true,
-                                                                    false,
-                                                                    false,
-                                                                    true,
-                                                                    false,
-                                                                    false)) :: []))
-                                                                    r''
-                                                                    | None ->
-                                                                    (match 
-                                                                    accept_alpha_word
-                                                                    w_end r' with
-                                                                    | Some r'' ->
-                                                                    emit
-                                                                    LxActionEnd
-                                                                    (app
-                                                                    carry
-                                                                    ((Ascii
-                                                                    (false,
-                                                                    false,
-                                                                    true,
-                                                                    false,
-                                                                    false,
-                                                                    true,
-                                                                    false,
-                                                                    false)) :: []))
-                                                                    r''
-                                                                    | None ->
-                                                                    let (
-                                                                    ts, tl0) =
-                                                                    lex_root
-                                                                    f
-                                                                    (app
-                                                                    carry
-                                                                    ((Ascii
-                                                                    (false,
-                                                                    false,
-                                                                    true,
-                                                                    false,
-                                                                    false,
-                                                                    true,
-                                                                    false,
-                                                                    false)) :: (d0 :: [])))
-                                                                    r'
-                                                                    in
-                                                                    ((errtok :: ts),
-                                                                    tl0)))
-                                                                 else 
-                                                                   emit
-                                                                    LxActionSelf
-                                                                    (app
-                                                                    carry
-                                                                    ((Ascii
-                                                                    (false,
-                                                                    false,
-                                                                    true,
-                                                                    false,
-                                                                    false,
-                                                                    true,
-                                                                    false,
-                                                                    false)) :: ((Ascii
-                                                                    (false,
-                                                                    false,
-                                                                    true,
-                                                                    false,
-                                                                    false,
-                                                                    true,
-                                                                    false,
-                                                                    false)) :: [])))
-                                                                    r'
-                                                       else if is_digit d0
-                                                            then let (
-                                                                   ds, r'') =
-                                                                   take_while
-                                                                    is_digit
-                                                                    r'
-                                                                 in
-                                                                 emit
-                                                                   LxActionN
-                                                                   (app carry
-                                                                    ((Ascii
-                                                                    (false,
-                                                                    false,
-                                                                    true,
-                                                                    false,
-                                                                    false,
-                                                                    true,
-                                                                    false,
-                                                                    false)) :: (d0 :: ds)))
-                                                                   r''
-                                                            else (match 
-                                                                  accept_alpha_word
-                                                                    w_accept
-                                                                    r' with
-                                                                  | Some r'' ->
-                                                                    emit
-                                                                    LxActionAccept
-                                                                    (app
-                                                                    carry
-                                                                    ((Ascii
-                                                                    (false,
-                                                                    false,
-                                                                    true,
-                                                                    false,
-                                                                    false,
-                                                                    true,
-                                                                    false,
-                                                                    false)) :: []))
-                                                                    r''
-                                                                  | None ->
-                                                                    (match 
-                                                                    accept_alpha_word
-                                                                    w_end r' with
-                                                                    | Some r'' ->
-                                                                    emit
-                                                                    LxActionEnd
-                                                                    (app
-                                                                    carry
-                                                                    ((Ascii
-                                                                    (false,
-                                                                    false,
-                                                                    true,
-                                                                    false,
-                                                                    false,
-                                                                    true,
-                                                                    false,
-                                                                    false)) :: []))
-                                                                    r''
-                                                                    | None ->
-                                                                    let (
-                                                                    ts, tl0) =
-                                                                    lex_root
-                                                                    f
-                                                                    (app
-                                                                    carry
-                                                                    ((Ascii
-                                                                    (false,
-                                                                    false,
-                                                                    true,
-                                                                    false,
-                                                                    false,
-                                                                    true,
-                                                                    false,
-                                                                    false)) :: (d0 :: [])))
-                                                                    r'
-                                                                    in
-                                                                    ((errtok :: ts),
-                                                                    tl0)))
-                                        else if is_digit d0
-                                             then let (ds, r'') =
-                                                    take_while is_digit r'
-                                                  in
-                                                  emit LxActionN
-                                                    (app carry ((Ascii
-                                                      (false, false, true,
-                                                      false, false, true,
-                                                      false,
-                                                      false)) :: (d0 :: ds)))
-                                                    r''
-                                             else (match accept_alpha_word
-                                                           w_accept r' with
-                                                   | Some r'' ->
-                                                     emit LxActionAccept
-                                                       (app carry ((Ascii
-                                                         (false, false, true,
-                                                         false, false, true,
-                                                         false,
-                                                         false)) :: [])) r''
-                                                   | None ->
-                                                     (match accept_alpha_word
-                                                              w_end r' with
-                                                      | Some r'' ->
-                                                        emit LxActionEnd
-                                                          (app carry ((Ascii
-                                                            (false, false,
-                                                            true, false,
-                                                            false, true,
-                                                            false,
-                                                            false)) :: []))
-                                                          r''
-                                                      | None ->
-                                                        let (ts, tl0) =
-                                                          lex_root f
-                                                            (app carry
-                                                              ((Ascii (false,
-                                                              false, true,
-                                                              false, false,
-                                                              true, false,
-                                                              false)) :: (d0 :: [])))
-                                                            r'
-                                                        in
-                                                        ((errtok :: ts), tl0))))
-                      else if eqb0 c (Ascii (false, false, true, true, true,
-                                true, true, false))
-                           then emit LxOr (app carry (c :: [])) r
-                           else if eqb0 c (Ascii (false, true, false, true,
-                                     true, true, false, false))
-                                then emit LxDefine (app carry (c :: [])) r
-                                else if eqb0 c (Ascii (true, true, false,
-                                          true, true, true, false, false))
-                                     then emit LxEnd (app carry (c :: [])) r
-                                     else if is_ws c
-                                          then lex_root f [] r
-                                          else if eqb0 c quote
-                                               then (match r with
-                                                     | [] ->
-                                                       ((errtok :: []),
-                                                         Closed)
-                                                     | d0 :: r' ->
-                                                       if eqb0 d0 bslash
-                                                       then (match r' with
-                                                             | [] ->
+                                     false)) :: ((Ascii (false, false, true,
+                                     false, false, true, false,
+                                     false)) :: []))) r'
+                            else if is_digit d0
+                                 then let (ds, r'') = take_while is_digit r'
+                                      in
+                                      emit LxActionN
+                                        (app carry ((Ascii (false, false,
+                                          true, false, false, true, false,
+                                          false)) :: (d0 :: ds))) r''
+                                 else (match accept_alpha_word w_accept r' with
+                                       | Some r'' ->
+                                         emit LxActionAccept
+                                           (app carry ((Ascii (false, false,
+                                             true, false, false, true, false,
+                                             false)) :: [])) r''
+                                       | None ->
+                                         (match accept_alpha_word w_end r' with
+                                          | Some r'' ->
+                                            emit LxActionEnd
+                                              (app carry ((Ascii (false,
+                                                false, true, false, false,
+                                                true, false, false)) :: []))
+                                              r''
+                                          | None ->
+                                            Cont ((errtok :: []),
+                                              (app carry ((Ascii (false,
+                                                false, true, false, false,
+                                                true, false,
+                                                false)) :: (d0 :: []))), r'))))
+                    else if eqb0 c (Ascii (false, false, true, true, true,
+                              true, true, false))
+                         then emit LxOr (app carry (c :: [])) r
+                         else if eqb0 c (Ascii (false, true, false, true,
+                                   true, true, false, false))
+                              then emit LxDefine (app carry (c :: [])) r
+                              else if eqb0 c (Ascii (true, true, false, true,
+                                        true, true, false, false))
+                                   then emit LxEnd (app carry (c :: [])) r
+                                   else if is_ws c
+                                        then Cont ([], [], r)
+                                        else if eqb0 c quote
+                                             then (match r with
+                                                   | [] ->
+                                                     Done ((errtok :: []),
+                                                       Closed)
+                                                   | d0 :: r' ->
+                                                     if eqb0 d0 bslash
+                                                     then (match r' with
+                                                           | [] ->
+                                                             Done
                                                                ((errtok :: []),
-                                                                 Closed)
-                                                             | e :: r'' ->
-                                                               if eqb0 e quote
-                                                               then emit
-                                                                    LxChar
+                                                               Closed)
+                                                           | e :: r'' ->
+                                                             if eqb0 e quote
+                                                             then emit LxChar
                                                                     (quote :: [])
                                                                     r''
-                                                               else ((errtok :: []),
+                                                             else Done
+                                                                    ((errtok :: []),
                                                                     Closed))
-                                                       else (match r' with
-                                                             | [] ->
+                                                     else (match r' with
+                                                           | [] ->
+                                                             Done
                                                                ((errtok :: []),
-                                                                 Closed)
-                                                             | e :: r'' ->
-                                                               if eqb0 e quote
-                                                               then emit
-                                                                    LxChar
+                                                               Closed)
+                                                           | e :: r'' ->
+                                                             if eqb0 e quote
+                                                             then emit LxChar
                                                                     (d0 :: [])
                                                                     r''
-                                                               else ((errtok :: []),
+                                                             else Done
+                                                                    ((errtok :: []),
                                                                     Closed)))
-                                               else if eqb0 c dquote
-                                                    then (match string_body r with
-                                                          | Some p ->
-                                                            let (v, r') = p in
-                                                            emit LxString v r'
-                                                          | None ->
+                                             else if eqb0 c dquote
+                                                  then (match string_body r with
+                                                        | Some p ->
+                                                          let (v, r') = p in
+                                                          emit LxString v r'
+                                                        | None ->
+                                                          Done
                                                             ((errtok :: []),
-                                                              Closed))
-                                                    else if (||)
-                                                              (is_letter c)
-                                                              (eqb0 c (Ascii
-                                                                (true, true,
-                                                                true, true,
-                                                                true, false,
-                                                                true, false)))
-                                                         then let (cs, r') =
-                                                                take_while
-                                                                  is_idch r
-                                                              in
-                                                              emit
-                                                                LxIdentifier
-                                                                (app carry
-                                                                  (c :: cs))
-                                                                r'
-                                                         else if eqb0 c
-                                                                   (Ascii
-                                                                   (false,
-                                                                   false,
-                                                                   true,
-                                                                   true,
-                                                                   true,
-                                                                   true,
-                                                                   false,
-                                                                   false))
-                                                              then emit
-                                                                    LxLAngle
-                                                                    (app
-                                                                    carry
+                                                            Closed))
+                                                  else if (||) (is_letter c)
+                                                            (eqb0 c (Ascii
+                                                              (true, true,
+                                                              true, true,
+                                                              true, false,
+                                                              true, false)))
+                                                       then let (cs, r') =
+                                                              take_while
+                                                                is_idch r
+                                                            in
+                                                            emit LxIdentifier
+                                                              (app carry
+                                                                (c :: cs)) r'
+                                                       else if eqb0 c (Ascii
+                                                                 (false,
+                                                                 false, true,
+                                                                 true, true,
+                                                                 true, false,
+                                                                 false))
+                                                            then emit
+                                                                   LxLAngle
+                                                                   (app carry
                                                                     (c :: []))
-                                                                    r
-                                                              else if 
-                                                                    eqb0 c
+                                                                   r
+                                                            else if eqb0 c
                                                                     (Ascii
                                                                     (false,
                                                                     true,
@@ -7844,17 +3395,17 @@ let rec lex_root fuel carry s =
                                                                     true,
                                                                     false,
                                                                     false))
-                                                                   then 
-                                                                    emit
+                                                                 then 
+                                                                   emit
                                                                     LxRAngle
                                                                     (app
                                                                     carry
                                                                     (c :: []))
                                                                     r
-                                                                   else 
-                                                                    if 
+                                                                 else 
+                                                                   if 
                                                                     is_digit c
-                                                                    then 
+                                                                   then 
                                                                     let (
                                                                     ds, r') =
                                                                     take_while
@@ -7866,7 +3417,7 @@ let rec lex_root fuel carry s =
                                                                     carry
                                                                     (c :: ds))
                                                                     r'
-                                                                    else 
+                                                                   else 
                                                                     if 
                                                                     eqb0 c
                                                                     (Ascii
@@ -7917,11 +3468,24 @@ let rec lex_root fuel carry s =
                                                                     (c :: a))
                                                                     r'
                                                                     | None ->
+                                                                    Done
                                                                     ((errtok :: []),
                                                                     Closed))
                                                                     else 
+                                                                    Done
                                                                     ((errtok :: []),
                                                                     Closed))
+
+(** val lex_root : nat -> ascii list -> ascii list -> tok0 list * tail **)
+
+let rec lex_root fuel carry s =
+  match fuel with
+  | O -> (({ t_kind = LxFuel; t_value = []; t_rest = s } :: []), Closed)
+  | S f ->
+    (match lex_step carry s with
+     | Done (ts, tl0) -> (ts, tl0)
+     | Cont (ts, carry', rest) ->
+       let (ts', tl0) = lex_root f carry' rest in ((app ts ts'), tl0))
 
 (** val lex : ascii list -> tok0 list * tail **)
 
